@@ -12,1241 +12,2579 @@ Definition show_fres (r : fres) : string :=
   end.
 Definition check (rs : list rune) : string := digest (show_fres (format_res rs)).
 Definition full (rs : list rune) : string := show_fres (format_res rs).
-Eval vm_compute in ("<<<M1571>>>" ++ check (runes_of_ascii "options {
-    ArrayPrefixLenType = u16;
-    FixedStringPadFromLeft = true;
-    JavaPackage = ""com.example.msg"";
-    GoPackage = ""msg"";
-    GoModule = ""example.com/msg"";
-}
-MetaData Meta {
-    u32 SeqNum `sequence number`,
-    char[8] Symbol `symbol`,
-    zchar[5] ZSym `z symbol`,
-    string Note,
-    Symbol AltSymbol `alias of symbol`,
-    f64 Price,
-}
-packet Inner {
-    u8 a,
-    i16 b,
-    string c,
-}
-packet Inner2 {
-    u8 a2,
-    char[3] c2,
-}
-packet Logon {
-    u8 x,
-    string user,
-    repeat u16 codes,
-}
-packet Logout {
-    u16 reason,
-}
-packet Empty {
-}
-root packet Msg {
-    u8 su8,
-    uint8 luint8,
-    u16 su16,
-    uint16 luint16,
-    u32 su32,
-    uint32 luint32,
-    u64 su64,
-    uint64 luint64,
-    i8 si8,
-    int8 lint8,
-    i16 si16,
-    int16 lint16,
-    i32 si32,
-    int32 lint32,
-    i64 si64,
-    int64 lint64,
-    f32 sf32,
-    float32 lfloat32,
-    f64 sf64,
-    float64 lfloat64,
-    char[6] fsplain,
-    @leftPad('0') char[4] fs0,
-    @rightPad('0') char[5] fs1,
-    @leftPad(' ') char[6] fs2,
-    @rightPad(' ') char[7] fs3,
-    @leftPad('\x00') char[8] fs4,
-    @rightPad('\x00') char[9] fs5,
-    @leftPad() char[10] fs6,
-    @rightPad() char[11] fs7,
-    zchar[7] fz,
-    @leftPad('0') zchar[3] fzl0,
-    string s1 `doc`,
-    char[] s2,
-    Inner,
-    Sub {
-        u8 q,
-        string w,
-        Deep {
-            u16 z,
-            repeat i32 zs,
+Eval vm_compute in ("<<<M3711>>>" ++ check (runes_of_ascii "root packet body {
+    o {
+        a1 rootA,
+    },
+    @leftPad(' ')
+    // packet A { u8 x, }
+    charz int,
+    repeat packetx {
+        repeat Z9_ {
+            lengthOf @calculatedFrom(""`tick`"") `a\`,
+        },
+        int8 i64_,
+    },
+    @lengthOf(len)
+    repeat zchar {
+        /// triple
+        Pad a1,
+        int16 a1 @calculatedFrom(""1"") ``,
+        rootA {
+            match a1 as options1 {
+                4294967296 : Header,
+                ""{,}"" : i8i8,
+                [""" ++ [28040; 24687]%N ++ runes_of_ascii """, 7] : x,
+                """" : i64_,
+            },
+            f32a {
+                repeat a1,
+                // c
+                len @calculatedFrom(""abc""),
+            },// `tick` ""quote"" 'q'
+            repeat zchar[10] stringy `a\`,
+            repeat calculatedFrom {
+                repeat repeatCount,
+                repeat i32 Pad `" ++ [28040; 24687; 31867; 22411]%N ++ runes_of_ascii "`,
+            },
+        },
+        lengthOf {
+            lengthOf @calculatedFrom(""it's""),
+            char[] Pad `say ""hi""`,
         },
     },
-    repeat u8 ru8,
-    repeat u16 ru16,
-    repeat u32 ru32,
-    repeat u64 ru64,
-    repeat i8 ri8,
-    repeat i16 ri16,
-    repeat i32 ri32,
-    repeat i64 ri64,
-    repeat f32 rf32,
-    repeat f64 rf64,
-    repeat string rstr,
-    repeat char[] rstr2,
-    repeat char[3] rfs,
-    repeat zchar[3] rfz,
-    repeat Inner2,
-    repeat Grp {
-        u8 k,
-        char[2] v,
+    zchar[0123456789] chars,
+    float @lengthOf(asx),
+    zchar {
+        match msg_type as Packet {
+            ""packet"" : packetx,
+            1 : chars,
+            0123456789 : metadata,
+            255 : lengthOf,
+            ""// no comment"" : a1,
+            // 50% %s
+            4294967296 : pack,
+        },
     },
-    SeqNum,
-    SeqNum seq2,
-    repeat SeqNum seqs,
-    Symbol,
-    AltSymbol alt,
-    ZSym,
-    Note,
-    repeat Symbol syms,
-    Price px,
-    u16 MsgType,
-    u32 BodyLen @lengthOf(Body),
-    match MsgType as Body {
-        1 : Logon,
-        [2, 3] : Logout,
-        7 : Logon,
-        9 : Empty,
+    @leftPad()
+    char[00] rootA,
+    MetaDataX {
+        match float as body {
+            // `tick` ""quote"" 'q'
+            // @lengthOf(
+            [""a\""b"", 007] : _x,
+        },
+        match calculatedFrom as x_y_z {
+            // a // b
+            0123456789 : o,
+            0 : a1,
+        },
+        _x {
+            match body as As {
+                7 : pack,
+                // trailing space 
+                // `tick` ""quote"" 'q'
+                ""it's"" : f32a,
+            },
+        },
+        repeat char[] x `a\`,
     },
-    u32 Checksum @calculatedFrom(""CRC32""),
 }
-")).
-Eval vm_compute in ("<<<M68>>>" ++ check (runes_of_ascii "MetaData
-len { i8 BodyLength , u32
-    u `tab	here`,
-    // `tick` ""quote"" 'q'
-    calculatedFrom	asx `" ++ [28040; 24687; 31867; 22411]%N ++ runes_of_ascii "` /// triple
-,
-Logon Packet `// not a comment`
-    ,
-    } //
-root packet string_ { zchar[ 00
-]
-options1	, match
-x_y_z as msg_type{	""it's""
-    // c
-    :  T 0123456789: a1 10 :
-trueish
-, } ,} packet
-len { int64 crc ,  body {
-f64 leftPad , a1, }
-    , repeat uint8x {repeat f32
-string_`" ++ [28040; 24687; 31867; 22411]%N ++ runes_of_ascii "`
-    , int8 T @calculatedFrom( """"
-    ) `line1
-line2` ,
-uint8 repeatCount	,
-} , u64 Foo `line1
-line2`	, @tag(1 ) repeat
-matchKey
-{ i8	x_y_z @lengthOf(Z9_ )// packet A { u8 x, }
-`tab	here` , calculatedFrom
-trueish// trailing space 
-, uint16 charz
-    // packet A { u8 x, }
-    @calculatedFrom(
-    ""{,}"" )`line1
-line2`	, } ,
-// @lengthOf(
-//
-uint32
-    metadata, @lengthOf( msg_type )repeat Packet { zchar[
-255
-]u8x @calculatedFrom( ""x y"")
-//
-// packet A { u8 x, }
-`crlf
-line`	, repeat
-// `tick` ""quote"" 'q'
-//
-u128 ,// packet A { u8 x, }
-float64 int ,
-    repeat Header	{ char[ 42 ]roots
-    @calculatedFrom(
+
+packet x_y_z {
+    repeat Pad {
+        int32 int @calculatedFrom(""CRC32""),
+    },
+    @tag(3)
+    @lengthOf(roots)
+    @tag(00)
+    match rootA as u {
+        [7] : string_,
+        [10, ""CRC32"", 007] : Logon,
+        007 : metadata,
+        255 : As,
+        [""packet""] : zchar,
+    },
+}
+
+packet roots {
+    float64 Packet,
+}")).
+Eval vm_compute in ("<<<M593>>>" ++ check (runes_of_ascii "packet lengthOf { } root packet
+    repeatCount { // 50% %s
+@tag( 42 ) @tag(0 ) @calculatedFrom(
+""it's""
+)// `tick` ""quote"" 'q'
+char[
+    //x
+    65535 ]
+charz @lengthOf( falsey )
+`" ++ [28040; 24687; 31867; 22411]%N ++ runes_of_ascii "` , } packet//	t
+crc {@calculatedFrom( ""packet""
+) @calculatedFrom( """ ++ [233]%N ++ runes_of_ascii "t" ++ [233]%N ++ runes_of_ascii """) @lengthOf( A
+) match float as chars
+    {
     //	t
-    ""CRC32"") `two words`,
-roots @calculatedFrom( ""a	b"" ) `two words`
-// packet A { u8 x, }
-// c
-, u32
-    // c
-    packetx
-@lengthOf( roots
-) , repeat float	BodyLength	`" ++ [233]%N ++ runes_of_ascii "` , } , }	,match
-float
-as A
-{	[ 7 , ""a	b"" ]
-:	Header ,[
-007	, ""1""
-    ]
-// @lengthOf(
-// @lengthOf(
-: charz
-    , ""\" ++ [233]%N ++ runes_of_ascii """ : i8i8 00 :	charz // packet A { u8 x, }
-42	:i64_
-, } , match
-// `tick` ""quote"" 'q'
-//
-uint8x as u8x{ 255 :
-    int } ,	}
-")).
-Eval vm_compute in ("<<<M1525>>>" ++ check (runes_of_ascii "packet Frame
-    // c1
-{ // c2a
-  // c2b
-u8
-    // c3
-HK
-    // c4
-, // c5a
-  // c5b
-u8 BK
-    // c7
-, u8 TK
-    // c10
-, // c11a
-  // c11b
-match // c12
-HK // c13
-as // c14
-Hdr // c15a
-  // c15b
-{
-    // c16
-1 // c17
-: HdrA , // c20a
-  // c20b
-2
-    // c21
-: // c22
-HdrB // c23a
-  // c23b
-, } // c25
-,
-    // c26
-match
-    // c27
-BK // c28a
-  // c28b
-as Body // c30a
-  // c30b
-{
-    // c31
-1 // c32a
-  // c32b
-:
-    // c33
-BodyA // c34a
-  // c34b
-, // c35
-2 : // c37a
-  // c37b
-BodyB
-    // c38
-,
-    // c39
-} , // c41
-match
-    // c42
-TK
-    // c43
+    [ 65535 , """ ++ [233]%N ++ runes_of_ascii "t" ++ [233]%N ++ runes_of_ascii """
+    , ""CRC32""
+,0123456789
+] : u ,
+    } ,zchar[ 255 ]
+chars @calculatedFrom(
+    // @lengthOf(
+    """ ++ [28040; 24687]%N ++ runes_of_ascii """ ),
+@lengthOf( asx )@rightPad ( // 50% %s
+'\x00'
+) repeat
+lengthOf `crlf
+line`,// `tick` ""quote"" 'q'
+repeat // trailing space 
+string_ { match Z9_
+//	t
+// " ++ [27880; 37322]%N ++ runes_of_ascii "
 as
-    // c44
-Trl {
-    // c46
-1 : TrlA // c49
-, } // c51a
-  // c51b
-, // c52
-} // c53
-packet HdrA // c55
-{ u8
-    // c57
-a ,
-    // c59
-} packet
-    // c61
-HdrB // c62
-{ u16
-    // c64
-b // c65a
-  // c65b
-, } // c67a
-  // c67b
-packet // c68
-BodyA // c69a
-  // c69b
-{
-    // c70
-u32 c
-    // c72
-,
-    // c73
-}
-    // c74
-packet
-    // c75
-BodyB // c76
-{
-    // c77
-u64 d
-    // c79
-, // c80
-}
-    // c81
-packet
-    // c82
-TrlA // c83a
-  // c83b
-{ u8 e
-    // c86
-, } root // c89a
-  // c89b
-packet
-    // c90
-Msg // c91a
-  // c91b
-{ Frame , u8 // c95a
-  // c95b
-x // c96a
-  // c96b
-, } // c98
-")).
-Eval vm_compute in ("<<<M1731>>>" ++ check (runes_of_ascii "  options
-{
-	T
-
-    = ' '}
-MetaData Pad
-	    //x
-  {
-    string_
-    u128  ,
-u64  // @lengthOf(
-
-	uint8x
-`two words` ,
-
-int8 repeatCount 
-, }
-
-    packet 
-len
-{
-	Packet	`
-`
-	, @calculatedFrom( ""a\""b"" 
-)
-    zchar[
-	42
-
-]rootA ,
-
-@calculatedFrom( ""packet""
-    )
-
-    @calculatedFrom(	""\n""
-)
-
-    Packet
-
-    @calculatedFrom( 
-""\" ++ [233]%N ++ runes_of_ascii """ 
-)
-
-`" ++ [28040; 24687; 31867; 22411]%N ++ runes_of_ascii "`
-
-    , 
-@leftPad (  '\x00')
-@leftPad
-	( )  @rightPad (
-
-)
-repeat
-
-    string_{	match
-	asx // c
-  as rootA
-    {
-[  ""`tick`""
-    ,
-65535
-    ] 
-:falsey ,
-    }
-,
-	trueish , 
-char
-    Z9_
-`// not a comment`
-	,  Packet
-
-Logon
-
-    `{ , }` ,}
-
-,
-	@tag( 1	)
-
-match x
-	as
-pack	//	t
-
-	{
-    1: stringy// `tick` ""quote"" 'q'
-	  ,
-	[  42  ]
-:x 
-}
-
-,  repeat//x
-	i8 u8x , @calculatedFrom(""packet""  )
-
-string_ 	 // c
-	@lengthOf(
-
-rootA 
-)
-    ,
-
-    falsey
-
-@lengthOf(	x ),
-	}
-    options
-
-    {
-}
-
-    root
-
-    packet
-u	{@lengthOf(
-x_y_z )
-u
-	@calculatedFrom(
-	"""" 
-) `two words`
-
-    ,
-
-} ")).
-Eval vm_compute in ("<<<M77>>>" ++ check (runes_of_ascii "  options
-{  T
-= ' ' }
-MetaData Pad
+roots {
+3  : T, [ """" ,
+10,  00 ]:packetx , }
+, }	, i8 Header @lengthOf(
+    charz )  `it's` ,repeat calculatedFrom
     //x
     {
-string_ u128  , u64 // @lengthOf(
-uint8x `two words` , int8 repeatCount
-, }
-    packet
-len{
-    Packet
-    `
-`
-,@calculatedFrom( ""a\""b""
-) zchar[
-    42 ]
-rootA ,
-    @calculatedFrom(
-""packet"" )
-@calculatedFrom( ""\n"" ) Packet @calculatedFrom( ""\" ++ [233]%N ++ runes_of_ascii """  )
-    `" ++ [28040; 24687; 31867; 22411]%N ++ runes_of_ascii "`, @leftPad
-    (
-    '\x00' )
-@leftPad (	)
-@rightPad (
-)
-repeat string_
-    {match asx // c
-as rootA {[
-""`tick`"",65535	]:
-falsey ,} , trueish
-, char Z9_`// not a comment` ,
-    Packet Logon `{ , }`, } ,@tag( 1 )
-    match x as pack//	t
-{
-1 :stringy // `tick` ""quote"" 'q'
-, [	42 ]:  x }  ,
-repeat//x
-i8 u8x , @calculatedFrom(""packet"") string_ // c
-@lengthOf( rootA ),	falsey
-@lengthOf( x )
-,} options
-{}
-root packet u { @lengthOf(x_y_z )	u
-    @calculatedFrom( """"
-)
-`two words`, }")).
-Eval vm_compute in ("<<<M57>>>" ++ check (runes_of_ascii "root
-packet string_{ i32 uint8x @calculatedFrom( ""\" ++ [233]%N ++ runes_of_ascii """ ) , body ,@tag(// a // b
-0  ) Z9_
-    @calculatedFrom(
-""" ++ [28040; 24687]%N ++ runes_of_ascii """),
-@lengthOf( stringy	)  falsey
-    { repeat trueish { u64 i8i8 , }
-,  } ,
-char[] leftPad
-@lengthOf( falsey
-    // c
-    ),	@calculatedFrom(	""a	b""
-    )
-//x
-// " ++ [27880; 37322]%N ++ runes_of_ascii "
-char[]  BodyLength,//x
-match
-falsey as crc{255 :falsey ,[
-//x
-// @lengthOf(
-7,7] // @lengthOf(
-:
-//
-//x
-crc, ""a	b""// `tick` ""quote"" 'q'
-: i8i8,255  : a1
-, } ,Logon@lengthOf( _x // `tick` ""quote"" 'q'
-)
-, match	lengthOf as  o{ ""packet"" :	x_y_z ,} , } options
-{
-//	t
-// `tick` ""quote"" 'q'
-calculatedFrom
-=
-""// no comment""  ;
-    x
-    ='\x00' a1
-= ""abc"" ; x_y_z=
-65535 ; } packet Foo
-{ } packet o { }")).
-Eval vm_compute in ("<<<M359>>>" ++ check (runes_of_ascii "  root
-    packet o
-{ a1 a1	, char[
-3 ] i8i8 `
-` , @calculatedFrom( ""a\""b"" )// packet A { u8 x, }
-repeat /// triple
-Pad
-    , }
 // `tick` ""quote"" 'q'
 // `tick` ""quote"" 'q'
-packet
-    tag{ i8i8 @calculatedFrom( ""x y"" )
-`it's`
-, @lengthOf(x_y_z
-) @calculatedFrom(
-//
-//	t
-""a\""b""
-    ) u {
-match	a1 as
-    Logon { ""\n"" : Pad
-,3
-:	body , """"
-:// `tick` ""quote"" 'q'
-Logon ,
-""\n"" : T
-, ""`tick`""
-:
-    tag ,
-[ """ ++ [233]%N ++ runes_of_ascii "t" ++ [233]%N ++ runes_of_ascii """/// triple
+match repeatCount as
+len { 7: lengthOf // trailing space 
+, [  """ ++ [233]%N ++ runes_of_ascii "t" ++ [233]%N ++ runes_of_ascii """ ] : MetaDataX
+    , ""abc"": Packet
+// c
+// `tick` ""quote"" 'q'
 ,
-7,
-""a\""b""	, 0123456789
-,""abc"" , """ ++ [28040; 24687]%N ++ runes_of_ascii """ ,0 ] : Z9_
-    },
-    char[ 00  ]//
-string_@lengthOf( asx ), char[
-    1 ]falsey , } ,match	crc
-as
-    lengthOf {
-    4294967296 : a1
-}, }
-")).
-Eval vm_compute in ("<<<M1117>>>" ++ check (runes_of_ascii "// top
-options
-    // c0
-{
-    // c1
-charz
-    // c2
-=
-    // c3
-f64
-    // c4
-;
-    // c5
-metadata
-    // c6
-=
-    // c7
+65535 : i64_ ,
+    007 : Packet },  stringy o  `
+`//
+,zchar[ /// triple
 7
-    // c8
-;
-    // c9
-}
-    // c10
-options
-    // c11
-{
-    // c12
-u128
-    // c13
-=
-    // c14
-10
-    // c15
-options1
-    // c16
-=
-    // c17
-true
-    // c18
-;
-    // c19
-zchar
-    // c20
-=
-    // c21
-uint16
-    // c22
-;
-    // c23
-lengthOf
-    // c24
-=
-    // c25
-true
-    // c26
-;
-    // c27
-}
-    // c28
-options
-    // c29
-{
-    // c30
-len
-    // c31
-=
-    // c32
-1
-    // c33
-}
-    // c34
-")).
-Eval vm_compute in ("<<<M2099>>>" ++ check (runes_of_ascii "options {
-    LittleEndian = true;
-    StringPrefixLenType = u16;
-    ArrayPrefixLenType = u64;
-}
-
-packet Fill {
-}
-
-packet Logon {
-    repeat char[3] Tail,
-    zchar[6] venue,
-    repeat string Side2,
-}
-
-root packet Cancel {
-    char[] Flags,
-    char[] OrderId,
-    zchar[6] msgKind,
-    Fill,
-    char[] Acct,
-    u8 f1,
-    match f1 as Body {
-        188 : Fill,
-        5 : Logon,
-    },
-    u32 clOrdID @calculatedFrom(""CR\
-        C32""),
-}")).
-Eval vm_compute in ("<<<M122>>>" ++ check (runes_of_ascii "
-packet  u
-    //	t
-    {uint32 metadata	,	@lengthOf( metadata // " ++ [27880; 37322]%N ++ runes_of_ascii "
-)
+    ]
+    u
+// packet A { u8 x, }
 // `tick` ""quote"" 'q'
-// c
-repeat Logon
-    ,x_y_z// a // b
-, @lengthOf(
-    tag )
-// " ++ [128512]%N ++ runes_of_ascii " emoji
-// c
-float msg_type	,}MetaData chars { u8x
-    matchKey
-// " ++ [27880; 37322]%N ++ runes_of_ascii "
-//x
-,
-    uint8
-    x_y_z `u8 x,`, zchar x_y_z `doc` ,	char i64_ `a\` ,f32 tag//	t
-, } MetaData _x {
-// trailing space 
-// `tick` ""quote"" 'q'
-} options { }
-")).
-Eval vm_compute in ("<<<M1786>>>" ++ check (runes_of_ascii "
+,	}, @lengthOf(lengthOf
+    )
+match f32a as  Z9_	{ ""1"" : o  ,} , }
+packet body { } //x
 root packet
-
-    roots
-{@tag(	7// `tick` ""quote"" 'q'
-    )int64 A 
-,}
-    //
-	//
-	packet
-u128
-// a // b
-
-  {
-
-    msg_type
-    Pad `line1
-line2` ,
-
-    }options
-    {crc =""\" ++ [233]%N ++ runes_of_ascii """
-;  }root packet
-
-    _x	{ @lengthOf(
-pack// " ++ [27880; 37322]%N ++ runes_of_ascii "
-      )i16 MetaDataX 
-, calculatedFrom
-	{	packetx
-
-@lengthOf(	BodyLength
-)`{ , }` ,  }	// a // b
-    ,
-}
-
-")).
-Eval vm_compute in ("<<<M1432>>>" ++ check (runes_of_ascii "// top
-packet // c0
-float // c1
-{ // c2
-repeat // c3
-i8i8 // c4
-MetaDataX // c5
-`it's` // c6
-, // c7
-rootA // c8
-, // c9
-repeat // c10
-int8 // c11
-int // c12
-, // c13
-match // c14
-repeatCount // c15
-as // c16
-x_y_z // c17
-{ // c18
-""{,}"" // c19
-: // c20
-Logon // c21
-, // c22
-} // c23
-, // c24
-} // c25
-")).
-Eval vm_compute in ("<<<M1120>>>" ++ check (runes_of_ascii "// top
-packet
-    // c0
-metadata
-    // c1
-{
-    // c2
-Logon
-    // c3
-{
-    // c4
-A
-    // c5
-`" ++ [28040; 24687; 31867; 22411]%N ++ runes_of_ascii "`
-    // c6
-,
-    // c7
-tag
-    // c8
-o
-    // c9
-,
-    // c10
-}
-    // c11
-,
-    // c12
-zchar
-    // c13
-len
-    // c14
-`// not a comment`
-    // c15
-,
-    // c16
-}
-    // c17
-")).
-Eval vm_compute in ("<<<M646>>>" ++ check (runes_of_ascii "root packet tag { }  packet MetaDataX{char[007	]
-// c
-/// triple
-asx  @calculatedFrom( ""a\""b""
-) `say ""hi""`// " ++ [27880; 37322]%N ++ runes_of_ascii "
-,  @tag(4294967296 )
-    char[1//x
-] packetx @calculatedFrom(""a\""b""
-    ) ,
-// " ++ [128512]%N ++ runes_of_ascii " emoji
-// a // b
-@calculatedFrom(""" ++ [233]%N ++ runes_of_ascii "t" ++ [233]%N ++ runes_of_ascii """  ) repeat pack // " ++ [27880; 37322]%N ++ runes_of_ascii "
-@tag(
-    } // c")).
-Eval vm_compute in ("<<<M292>>>" ++ check (runes_of_ascii "options { asx = ""{,}"" } packet len{repeat	float
-    As, char[] Packet ,
-i8 body @lengthOf( T
-) //
-,
-}// @lengthOf(
-packet
-    Pad {uint32
-u8x // packet A { u8 x, }
-, /// triple
-@tag( 4294967296 ) @tag(65535)
-@rightPad(
-    )rootA
-    trueish `{ , }`
-    ,
-    } 	 ")).
-Eval vm_compute in ("<<<M545>>>" ++ check (runes_of_ascii "root packet tag { }  packet MetaDataX{char[007	]
-// c
-/// triple
-asx  @calculatedFrom( )
-""a\""b"" `say ""hi""`// " ++ [27880; 37322]%N ++ runes_of_ascii "
-,  @tag(4294967296 )
-    char[1//x
-] packetx @calculatedFrom(""a\""b""
-    ) ,
-// " ++ [128512]%N ++ runes_of_ascii " emoji
-// a // b
-@calculatedFrom(""" ++ [233]%N ++ runes_of_ascii "t" ++ [233]%N ++ runes_of_ascii """  ) repeat pack // " ++ [27880; 37322]%N ++ runes_of_ascii "
-,
-    } // c")).
-Eval vm_compute in ("<<<M613>>>" ++ check (runes_of_ascii "root packet tag { }  packet MetaDataX{char[007	]
-// c
-/// triple
-asx  @calculatedFrom( ""a\""b""
-) `say ""hi""`// " ++ [27880; 37322]%N ++ runes_of_ascii "
-,  @tag(4294967296 )
-    char[1//x
-] packetx @calculatedFrom(""a\""b""
-    ) 
-// " ++ [128512]%N ++ runes_of_ascii " emoji
-// a // b
-@calculatedFrom(""" ++ [233]%N ++ runes_of_ascii "t" ++ [233]%N ++ runes_of_ascii """  ) repeat pack // " ++ [27880; 37322]%N ++ runes_of_ascii "
-,
-    } // c")).
-Eval vm_compute in ("<<<M671>>>" ++ check (runes_of_ascii "root packet tag { }  packet MetaDataX{char[007	]
-// c
-/// triple
-asx  @calculatedFrom( ""a\""b""
-) `say ""hi""`// " ++ [27880; 37322]%N ++ runes_of_ascii "
-,  @tag(4294967296 )
-    char[1//x
-] x" ++ [178]%N ++ runes_of_ascii " @calculatedFrom(""a\""b""
-    ) ,
-// " ++ [128512]%N ++ runes_of_ascii " emoji
-// a // b
-@calculatedFrom(""" ++ [233]%N ++ runes_of_ascii "t" ++ [233]%N ++ runes_of_ascii """  ) repeat pack // " ++ [27880; 37322]%N ++ runes_of_ascii "
-,
-    } // c")).
-Eval vm_compute in ("<<<M1959>>>" ++ check (runes_of_ascii "// top
-packet float {
-    // c2
-    repeat i8i8 MetaDataX `it's`,
-    // c7
-    rootA,
-    // c9
-    repeat int8 int,
-    // c13
-    match repeatCount as x_y_z {
-        // c18
-        ""{,}"" : Logon,
-        // c22
-    },
-    // c24
-}
-// c25")).
-Eval vm_compute in ("<<<M1448>>>" ++ check (runes_of_ascii "// top
-packet // c0a
-  // c0b
-Inner // c1
-{ // c2
-u8 a // c4a
-  // c4b
-, // c5a
-  // c5b
-} root // c7a
-  // c7b
-packet
-    // c8
-P
-    // c9
-{ repeat Inner items // c13a
-  // c13b
-, // c14
-u8 x
-    // c16
-, // c17
-} ")).
-Eval vm_compute in ("<<<M110>>>" ++ check (runes_of_ascii "packet i64_
-{	@tag( // a // b
-0123456789) x_y_z@calculatedFrom( ""it's"" ) , @rightPad ( ' ' ) @tag( 007
-    ) leftPad {
-    zchar[00 ]Pad , }
-,int32 _x@lengthOf( BodyLength
-/// triple
-//
-) ,
-}
-")).
-Eval vm_compute in ("<<<M372>>>" ++ check (runes_of_ascii "MetaData // " ++ [128512]%N ++ runes_of_ascii " emoji
-chars { int64 metadata	,
-char[00] stringy
-//
-// c
-,
-    f64 Foo ,} options {	} options {As = char[ 4294967296
-]A =
-""x y""options1=	float32 Logon =  '\x00' ;	}
-")).
-Eval vm_compute in ("<<<M2118>>>" ++ check (runes_of_ascii "MetaData stringy {
-    i16 f32a,
-    string crc `crlf
-    line`,
-    f32 o `doc`,
-    float64 calculatedFrom,
-}
-
-packet o {
-    @leftPad()
-    string_ @lengthOf(packetx),
-}")).
-Eval vm_compute in ("<<<M474>>>" ++ check (runes_of_ascii "packet
-    // `tick` ""quote"" 'q'
-    crc
+    Z9_
+    {
+match packetx as f32a	{ 0 // a // b
+: metadata , }
+    , char[] leftPad
+    ``
+    // @lengthOf(
+    ,repeat
+    uint8 x_y_z`100% of %d`  ,
+string BodyLength@calculatedFrom(
+""" ++ [128512]%N ++ runes_of_ascii """) ,	Pad	, @tag(
+    255 )
+    @lengthOf(
+// @lengthOf(
 // packet A { u8 x, }
-//	t
-{
-u32 a1 ,
-    // trailing space 
-    roots
-charz //
-`two words`,	}
-    MetaData int {
-} /// triple|")).
-Eval vm_compute in ("<<<M697>>>" ++ check (runes_of_ascii "root packet len // trailing space 
-{
-// " ++ [27880; 37322]%N ++ runes_of_ascii "
-//	t
-char[10
-] metadata	@lengthOf( o ) `crlf
-line`,
-    (
-@rightPad ' '
-) string
-    Header @calculatedFrom( ""a\\""
-    ), }
-")).
-Eval vm_compute in ("<<<M389>>>" ++ check (runes_of_ascii "packet
-    // `tick` ""quote"" 'q'
-    
-// packet A { u8 x, }
-//	t
-{
-u32 a1 ,
-    // trailing space 
-    roots
-charz //
-`two words`,	}
-    MetaData int {
-} /// triple")).
-Eval vm_compute in ("<<<M1994>>>" ++ check (runes_of_ascii "//
-	packet int  { @leftPad(
-'\x00'  ) 
-MetaDataX
-	@lengthOf(
-u128 
+roots ) @calculatedFrom(  """ ++ [128512]%N ++ runes_of_ascii """
 )
-	, u	a1 `doc` , @calculatedFrom(
-""a\""b"" )
-
-i16 repeatCount // @lengthOf(
-  	`tab	here`
-	, }")).
-Eval vm_compute in ("<<<M597>>>" ++ check (runes_of_ascii "root packet tag { }  packet MetaDataX{char[007	]
-// c
-/// triple
-asx  @calculatedFrom( ""a\""b""
-) `say ""hi""`// " ++ [27880; 37322]%N ++ runes_of_ascii "
-,  @tag(4294967296 )
-    char[1//x
-]")).
-Eval vm_compute in ("<<<M1716>>>" ++ check (runes_of_ascii "
-packet A
-{ match k
-	as  n
-{
-[ 1 ,
-    22
-	,
-	""c c"" 
-,4
-
+    repeat crc { repeat char //	t
+trueish
+    , }	,
+    zchar[
+    4294967296 ]options1
+@calculatedFrom(""CRC32"" ) , // 50% %s
+match packetx as lengthOf { ""a\""b""  : options1	,
+// trailing space 
+// " ++ [128512]%N ++ runes_of_ascii " emoji
+0123456789
+: Foo
+,  ""a\\"": trueish	, 3
+    :
+    string_ , ""\n"" :
+    /// triple
+    zchar , [ 65535 ]
+: u128
+} ,@tag( 42 ) @leftPad ( '\x00' ) i16 crc ,
+    zchar[7]	_x  @lengthOf(falsey  )
 ,
-
-    5
-,	""f""
-	,  7
-,
-    8 
-,	""i""
-
-,
-
-10
-	]
-
-:B
-    2
-:
-
-    C }
-	,
-	} ")).
-Eval vm_compute in ("<<<M335>>>" ++ check (runes_of_ascii "MetaData u { BodyLength repeatCount // packet A { u8 x, }
-,
-} options {
-string_
-= false ; i8i8=10 ;}
-    root packet float { } //")).
-Eval vm_compute in ("<<<M1269>>>" ++ check (runes_of_ascii "root packet matchKey { zchar[ 3 ] pack @calculatedFrom( ""a	b"" ) `doc` , } options { } MetaData A { int8 msg_type , } // c
-")).
-Eval vm_compute in ("<<<M1248>>>" ++ check (runes_of_ascii "root packet matchKey { zchar[ 3 ] pack @calculatedFrom( ""a	b"" ) `doc` ,
-// c
-} options { } MetaData A { int8 msg_type , }")).
-Eval vm_compute in ("<<<M965>>>" ++ check (runes_of_ascii "packet A {
-    match k as n {
-        ""x\
-y"" : B,
-        [""x\
-y"", 1] : C,
-        [1,2,3,4,5,""x\
-y""] : D,
-    },
-}")).
-Eval vm_compute in ("<<<M888>>>" ++ check (runes_of_ascii "packet A {
-  match k as n {
-    [""a"", ""bb"", ""c c"", ""d"", ""e"", ""f"", ""g"", ""h"", ""i"", ""j"", ""k""] : B,
-    2 : C
-  },
-}")).
-Eval vm_compute in ("<<<M914>>>" ++ check (runes_of_ascii "packet A {
-    u16 len @lengthOf(body) `a
-b`,
-    u32 crc @calculatedFrom(""CRC32"") `a
-b`,
-    string body,
-}")).
-Eval vm_compute in ("<<<M892>>>" ++ check (runes_of_ascii "packet A {
-  match k as n {
-    [""a"", 22, ""c c"", 4, ""e"", 66, ""g"", 8, ""i"", 10, ""k""] : B,
-    2 : C
-  },
-}")).
-Eval vm_compute in ("<<<M1512>>>" ++ check (runes_of_ascii "packet FooBar {
-    u8 a,
-}
-packet foo_bar {
-    u16 b,
-}
-root packet R {
-    FooBar,
-    foo_bar,
 }
 ")).
-Eval vm_compute in ("<<<M91>>>" ++ check (runes_of_ascii "// trailing space 
-MetaData u8x
-{
-i64_
-    i64_ `doc`,i16 Z9_ `say ""hi""` , BodyLength
-roots ,
-}")).
-Eval vm_compute in ("<<<M1470>>>" ++ check (runes_of_ascii "options { 
-FixedStringPadFromLeft	= true
-	; }
-
-    root	packet
-
-P{
-	char[4]
-	z
-    ,
-    }
-")).
-Eval vm_compute in ("<<<M851>>>" ++ check (runes_of_ascii "packet A {
-  match k as n {
-    [1, ""bb"", 007, ""d"", 5, ""f"", 7, ""h""] : B,
-    2 : C
-  },
-}")).
-Eval vm_compute in ("<<<M1207>>>" ++ check (runes_of_ascii "MetaData float { float64 charz `
-` , } root packet chars { @rightPad (
-// c
-'0' ) Foo , }")).
-Eval vm_compute in ("<<<M1418>>>" ++ check (runes_of_ascii "packet chars { } packet MetaDataX { @tag( 42 ) i16 string_ // c
-, repeat x `say ""hi""` , }")).
-Eval vm_compute in ("<<<M1820>>>" ++ check (runes_of_ascii "packet
-    A
-	{Inner
+Eval vm_compute in ("<<<M3683>>>" ++ check (runes_of_ascii "
+MetaData  _x
 
     {
-	u8 x
-
-`x
-`
-,	Deep
-{ u8 y`x
-`
-
-    , 
-}	,
-	}
-    , }
-
-")).
-Eval vm_compute in ("<<<M1148>>>" ++ check (runes_of_ascii "packet metadata { Logon { A `" ++ [28040; 24687; 31867; 22411]%N ++ runes_of_ascii "` , tag o , } , // c
-zchar len `// not a comment` , }")).
-Eval vm_compute in ("<<<M1353>>>" ++ check (runes_of_ascii "packet o { repeat Logon uint8x ,
-// c
-} options { asx = zchar[ 3 ] stringy = '\x00' }")).
-Eval vm_compute in ("<<<M1497>>>" ++ check (runes_of_ascii "packet order_item {
-    u8 a,
-}
-root packet new_order {
-    order_item,
-    u8 x,
-}
-")).
-Eval vm_compute in ("<<<M1314>>>" ++ check (runes_of_ascii "MetaData body { i64 pack
-// c
-`it's` , } packet stringy { int16 calculatedFrom , }")).
-Eval vm_compute in ("<<<M1777>>>" ++ check (runes_of_ascii "
-MetaData
-Packet 
-{
     string
-Logon `" ++ [233]%N ++ runes_of_ascii "`  ,	int8
-	_x
-//	t
+	Packet `// not a comment` ,
+    o Logon  
   // " ++ [27880; 37322]%N ++ runes_of_ascii "
+	, 
+packetx uint8x ,
+
+} root 
+
+// a // b
+  // a // b
+  packet
+    MetaDataX{
+    repeat
+	char[255 ] // " ++ [128512]%N ++ runes_of_ascii " emoji
+  x_y_z
+
+    `doc`	,	@calculatedFrom( ""{,}""
+	) 
+match 
+      // " ++ [128512]%N ++ runes_of_ascii " emoji
+  asx
+as
+
+A	// trailing space 
+{
+4294967296
+:  Pad	10
+
+    : a1,
+} ,  zchar[ 3
+	]asx	`{ , }`,match 
+msg_type as
+i8i8 {[0
+	,
+
+1 ,
+
+    007,
+
+""a\\"", 
+""\" ++ [233]%N ++ runes_of_ascii """ ,  65535
+
+    ]:calculatedFrom
+, 
+	// 50% %s
+  007 	 // trailing space 
+	:T 
+255
+    :	repeatCount
+,
+
+[	// trailing space 
+0123456789
+,
+""it's"" 
+]
+
+: chars
+
+,	}
+
+    , u128,
+    string
+
+A  @lengthOf( Packet	)
+
+    `tab	here`,
+char[ 
+0123456789 ]// trailing space 
+      uint8x
+@lengthOf( x_y_z)
     ,
-    } ")).
-Eval vm_compute in ("<<<M821>>>" ++ check (runes_of_ascii "packet A {
-  match k as n {
-    [1, 22, 007, 4, 5, 66] : B,
-    2 : C
-  },
-}")).
-Eval vm_compute in ("<<<M809>>>" ++ check (runes_of_ascii "packet A {
-  match k as n {
-    [1, 22, 007, 4, 5] : B
-    2 : C
-  },
-}")).
-Eval vm_compute in ("<<<M1475>>>" ++ check (runes_of_ascii "root packet P {
-    u16 a,
-    u32 Sum @calculatedFrom(""CRC32""),
+
+asx`" ++ [28040; 24687; 31867; 22411]%N ++ runes_of_ascii "`
+, 
+} packet
+    a1
+
+    {
+i8 trueish
+, }
+packet matchKey
+	{ 
+match  a1 as 
+string_
+    {	10	:pack 
+// trailing space 
+// a // b
+
+  ,
+}	,  
+      // @lengthOf(
+// a // b
+	char[ 10
+
+]
+falsey
+    `" ++ [233]%N ++ runes_of_ascii "`
+    ,
+    pack
+    { 
+i8i8{  repeat lengthOf
+
+    {
+    //	t
+  tag	asx,
+	match
+    rootA
+
+as
+matchKey	// packet A { u8 x, }
+    {
+    ""CRC32""
+
+    :
+u
+	42:	lengthOf
+,	// c
+	  }
+,
+
+repeat 
+// packet A { u8 x, }
+  // @lengthOf(
+  	uint64
+	packetx `
+` 
+,
+zchar[  0
+]	/// triple
+	options1 @lengthOf( Packet)
+
+`doc` ,
+
+}
+
+,}	// trailing space 
+    	, }  ,} 
+  // `tick` ""quote"" 'q'
+	  //
+MetaData
+options1	{
+	string_// packet A { u8 x, }
+  zchar , 
+Z9_ repeatCount
+
+    `crlf
+line`
+	,
+uint64 
+Logon
+
+    , uint64  a1
+,string_
+Foo ,
 }
 ")).
-Eval vm_compute in ("<<<M302>>>" ++ check (runes_of_ascii "
+Eval vm_compute in ("<<<M651>>>" ++ check (runes_of_ascii "packet trueish {
+    char[// a // b
+007 ] asx  @lengthOf(a1
+) `a\`, @tag(	00 ) @leftPad ( ' ' ) repeat zchar[ 7
+// " ++ [128512]%N ++ runes_of_ascii " emoji
+//
+]// 50% %s
+charz ,int64 len @calculatedFrom(	""\" ++ [233]%N ++ runes_of_ascii """ ) , u64
+f32a , /// triple
+@lengthOf(
+    Pad ) u @calculatedFrom(""packet"")
+    `line1
+line2` ,@calculatedFrom(  """ ++ [28040; 24687]%N ++ runes_of_ascii """  )
+// @lengthOf(
+//
+@lengthOf( Foo
+    ) @calculatedFrom( ""abc""
+)
+    u64 zchar
+// @lengthOf(
+// trailing space 
+,
+    match body as
+    body {
+0 :
+    charz ""packet"": charz , 0123456789 : repeatCount
+    //	t
+    , ""\" ++ [233]%N ++ runes_of_ascii """	:  Foo}
+    ,}
 packet
+    u128
+    {
+    //x
+    u8x `two words`// trailing space 
+,
+} packet options1
+    { @calculatedFrom( """"
+) repeat  Foo metadata
+, @tag(42	) f32a
+uint8x `u8 x,` , crc , @leftPad (
+    // `tick` ""quote"" 'q'
+    '\x00'
+    )
+    @lengthOf(pack //
+)
+    @calculatedFrom( """ ++ [28040; 24687]%N ++ runes_of_ascii """  )
     // a // b
-    matchKey{ @tag(//
-0 ) repeat u ,}
+    Pad  @lengthOf( uint8x )  ,
+repeat
+u { uint8x
+    packetx	, chars
+    @calculatedFrom( ""x y"" ) , repeat
+    Header
+{char[4294967296  ] // trailing space 
+i64_, tag {
+    string
+msg_type@calculatedFrom(
+""a\\""
+) , }, f32a o`100% of %d`
+    ,
+    } ,} // c
+, char[ 7]f32a , string charz ,
+} MetaData chars { zchar[3 //	t
+] _x, falsey u8x
+    /// triple
+    , char[ 255 ]
+    matchKey , uint32 charz
+//
+// " ++ [27880; 37322]%N ++ runes_of_ascii "
+,float32 Logon , u  MetaDataX  ,} options { Pad
+=// packet A { u8 x, }
+' ' ;  }")).
+Eval vm_compute in ("<<<M434>>>" ++ check (runes_of_ascii "// `tick` ""quote"" 'q'
+MetaData	packetx { u64 string_ ,
+} packet rootA
+{leftPad
+    {match
+packetx as zchar
+{ 10 :
+rootA 007 : Foo ,10 :trueish ,3 :
+repeatCount , }
+,
+    // packet A { u8 x, }
+    char[]Packet @calculatedFrom( ""CRC32""
+    // c
+    ) ,},
+@rightPad  ( ' '	)
+chars @lengthOf(zchar )
+`doc` , //	t
+packetx { match matchKey as calculatedFrom{
+    10 : asx , 65535 :
+    pack[
+""{,}"" ,
+    ""\n"" , ""1"" ,	007
+, 65535
+, ""a\""b"", 4294967296 ] :asx , }
+    ,	string_ asx
+    `100% of %d`
+, }
+,}
+    options
+// 50% %s
+// a // b
+{ tag
+= true;	} packet
+Packet { @lengthOf(
+    i64_
+)	u32 crc,
+u16 MetaDataX `doc` ,
+@calculatedFrom( ""// no comment""	)
+    repeat int64  packetx`line1
+line2` ,  @leftPad (  ' ' //	t
+)
+repeat BodyLength { char[]As, char[] i64_	@calculatedFrom( ""it's"" )
+    , i64
+As , Header
+`it's`
+    , //	t
+} , @leftPad ()
+zchar[10
+] falsey ,
+// " ++ [27880; 37322]%N ++ runes_of_ascii "
+// " ++ [27880; 37322]%N ++ runes_of_ascii "
+@calculatedFrom( """ ++ [128512]%N ++ runes_of_ascii """ )pack
+, A {	repeat//
+u8x tag , int64 T@lengthOf(Packet // @lengthOf(
+) //x
+,// packet A { u8 x, }
+x
+Logon ,
+    options1 @calculatedFrom( ""a	b"" )
+,} , @lengthOf(
+//x
+// `tick` ""quote"" 'q'
+A )
+@leftPad// 50% %s
+( '\x00'	) zchar[ 65535 ]
+    MetaDataX `// not a comment` ,repeat f32
+    Packet `" ++ [233]%N ++ runes_of_ascii "` ,
+    }
+MetaData	chars {
+}
+")).
+Eval vm_compute in ("<<<M677>>>" ++ check (runes_of_ascii "options { chars =
+'0'
+;
+} root packet x { match Logon
+as calculatedFrom { [ ""`tick`"" // packet A { u8 x, }
+, 0123456789 ] :Packet
+    } ,
+    // packet A { u8 x, }
+    char[ 0123456789 // " ++ [128512]%N ++ runes_of_ascii " emoji
+] u8x , @tag(00	) string
+metadata`say ""hi""` , i64  A `" ++ [28040; 24687; 31867; 22411]%N ++ runes_of_ascii "`, @lengthOf(/// triple
+calculatedFrom ) float
+@calculatedFrom( ""{,}""
+) // " ++ [27880; 37322]%N ++ runes_of_ascii "
+,}
+    packet
+crc { @tag( 0123456789 ) uint32  tag `line1
+line2` , repeat zchar[  4294967296
+    ] BodyLength `" ++ [28040; 24687; 31867; 22411]%N ++ runes_of_ascii "` ,  repeat calculatedFrom  `two words`
+    , uint32 repeatCount
+, leftPad BodyLength `" ++ [233]%N ++ runes_of_ascii "`  ,
+    options1 Logon ``  ,@leftPad ( ' ' )
+repeat metadata string_// c
+, char[ 0123456789 ]
+trueish @calculatedFrom( ""a\""b"" ) `say ""hi""`
+,
+    @calculatedFrom(
+""\n""
+)pack , } packet leftPad { @tag(7
+    ) options1 {repeat
+pack, } ,  u
+`` , packetx @lengthOf( MetaDataX)
+, asx
+    // trailing space 
+    {
+repeat
+    repeatCount Z9_ ,
+    repeat zchar[
+4294967296  ] Pad , }	, @tag( 255 ) @tag(
+    255
+)  char[	0123456789 ]  u8x // packet A { u8 x, }
+, //
+@calculatedFrom(""CRC32""
+    ) char[
+    3 ] Pad `tab	here`
+, MetaDataX ,@leftPad	( ' ' )  char[] Foo
+@calculatedFrom(
+    """ ++ [28040; 24687]%N ++ runes_of_ascii """) , }
 
 ")).
-Eval vm_compute in ("<<<M1160>>>" ++ check (runes_of_ascii "// top
-root // c0
-packet // c1
-pack // c2
-{ // c3
-} // c4
+Eval vm_compute in ("<<<M4288>>>" ++ check (runes_of_ascii "packet options1  {
+	} packet
+o
+
+    { 
+o
+
+Header	``,
+@calculatedFrom(  ""\n""
+) int32 
+MetaDataX	, 
+	    // @lengthOf(
+		//	t
+  rootA
+{ 
+match  tag
+
+    as  Header{""x y"" 
+:
+
+string_
+
+, 00
+:  roots
+
+    4294967296  :
+
+    trueish // @lengthOf(
+	""a\""b""
+
+: u
+, ""a\""b""	:packetx
+
+""\n""
+: float 
+    //	t
+    /// triple
+    ,
+
+}
+, }	, 
+match	//
+      x_y_z
+    as float{""a	b""  : float , // trailing space 
+	  [
+7 // " ++ [128512]%N ++ runes_of_ascii " emoji
+	  ,	0123456789 
+,4294967296
+
+    ,""x y"" ,
+7, ""a\""b""
+, 
+7 
+]:
+Header ,  ""x y""
+
+    :
+
+    Pad
+	,
+
+""`tick`"":
+len
+
+    } 
+,	@calculatedFrom(
+""packet""	)	repeat string As
+	, 
+Foo{
+
+    int16 trueish ,
+	repeat
+	int16
+
+metadata`{ , }`
+,match 
+lengthOf
+	    //
+	// `tick` ""quote"" 'q'
+
+as
+Pad{""\" ++ [233]%N ++ runes_of_ascii """
+:
+	metadata 	 // a // b
+  	,	},
+
+Foo @calculatedFrom(
+    ""\n"" ) 	 // `tick` ""quote"" 'q'
+  `crlf
+line` , 	 // 50% %s
+  }
+,
+    u @lengthOf(
+repeatCount	) `doc` ,
+
+    T@lengthOf(  calculatedFrom
+)  ,}
+MetaData 
+trueish
+{ }
+	    // " ++ [128512]%N ++ runes_of_ascii " emoji
+	// packet A { u8 x, }
+	options	{
+
+    trueish
+
+=uint8;
+
+}
+	MetaData 
+Pad { 
+}
 ")).
-Eval vm_compute in ("<<<M1092>>>" ++ check (runes_of_ascii "packet A {
-    match k as n {
-        1 : B,// c
+Eval vm_compute in ("<<<M994>>>" ++ check (runes_of_ascii "root
+packet falsey {// c
+@rightPad ('0')// a // b
+zchar[ 4294967296 // @lengthOf(
+] charz `two words`
+,
+@lengthOf(o ) @calculatedFrom(""abc"" //x
+)repeat uint32
+x ,
+    @calculatedFrom(
+    """ ++ [28040; 24687]%N ++ runes_of_ascii """
+)
+    match Logon// a // b
+as msg_type { 65535 :int ""`tick`""
+: int ,
+10 : string_ 007  : asx [
+//	t
+// 50% %s
+42 , ""\" ++ [233]%N ++ runes_of_ascii """ ] :chars ,/// triple
+} ,options1
+@calculatedFrom( ""a\""b"" )
+    // `tick` ""quote"" 'q'
+    `tab	here` // trailing space 
+,
+@calculatedFrom( ""a	b"" ) @calculatedFrom(// a // b
+""" ++ [128512]%N ++ runes_of_ascii """// @lengthOf(
+) metadata //
+,
+rootA
+{ zchar[
+    // " ++ [128512]%N ++ runes_of_ascii " emoji
+    00 ]// 50% %s
+u @lengthOf( T )
+`// not a comment` , }
+    // a // b
+    , match
+    f32a as repeatCount
+    { [ ""it's"",
+""`tick`"" ,
+""it's"" ] : T
+    ,
+    255 : _x
+""packet""
+    :	pack // " ++ [128512]%N ++ runes_of_ascii " emoji
+, 007 :falsey ,
+    0
+    :trueish
+, }
+, int8 T // " ++ [27880; 37322]%N ++ runes_of_ascii "
+@calculatedFrom(
+""\" ++ [233]%N ++ runes_of_ascii """ )`crlf
+line` , string // @lengthOf(
+crc@calculatedFrom(
+    ""\" ++ [233]%N ++ runes_of_ascii """ ) , zchar[ 10 ] u	@calculatedFrom(
+""a\\"" ) `u8 x,` ,
+    //
+    }packet msg_type { BodyLength	@lengthOf(
+x ) ,
+}")).
+Eval vm_compute in ("<<<M56>>>" ++ check (runes_of_ascii "packet MetaDataX {i8
+u128
+    @lengthOf( Z9_
+)  `line1
+line2`  ,@calculatedFrom(
+""1"") match Foo as body
+    {
+42 :
+lengthOf ,
+""`tick`"" : trueish, }, @tag(10 ) @leftPad ( ) char[] T
+    @lengthOf(
+body )	`" ++ [28040; 24687; 31867; 22411]%N ++ runes_of_ascii "`,
+zchar[ 0123456789 ]matchKey `{ , }`
+,
+    }options {
+    u8x
+= true ; zchar=int32 ; o
+    =
+""a\\""
+; body
+=false; } root
+    packet
+//	t
+// a // b
+rootA
+    { @tag(
+    3) @tag(4294967296
+)@lengthOf( // @lengthOf(
+f32a) _x
+    Foo `say ""hi""` , } packet Foo
+    // trailing space 
+    {@tag( 7 ) @lengthOf( u128
+)u16 u128@calculatedFrom(	""a\""b""
+) // " ++ [128512]%N ++ runes_of_ascii " emoji
+`u8 x,`
+,
+    //x
+    @lengthOf(
+    Pad ) @lengthOf(
+    f32a )
+@calculatedFrom( """ ++ [28040; 24687]%N ++ runes_of_ascii """ )
+uint16 a1	, @leftPad
+(' ' )
+A
+    {	int64
+Pad
+`crlf
+line` , uint64 Z9_ @calculatedFrom(""a	b"")
+,
+    // a // b
+    repeat options1
+,
+char[// " ++ [128512]%N ++ runes_of_ascii " emoji
+4294967296 ]falsey , } ,
+zchar[
+    65535 ]
+chars	``,
+    @calculatedFrom(
+    """"
+// " ++ [27880; 37322]%N ++ runes_of_ascii "
+// " ++ [27880; 37322]%N ++ runes_of_ascii "
+)
+    @calculatedFrom( ""1""
+) uint8 a1
+,//x
+}
+")).
+Eval vm_compute in ("<<<M1324>>>" ++ check (runes_of_ascii "
+options { float = f64 ; x_y_z= 10 ; Z9_
+// trailing space 
+// @lengthOf(
+=
+    string
+//
+//	t
+}packet
+trueish
+// 50% %s
+// " ++ [27880; 37322]%N ++ runes_of_ascii "
+{ f32a { match	options1 as pack {
+    65535 :options1 , } , repeat
+    // c
+    A
+`two words` ,  repeat
+string float	,
+    repeat trueish crc// trailing space 
+`doc`
+, }, } MetaData repeatCount // " ++ [27880; 37322]%N ++ runes_of_ascii "
+{ string options1 `" ++ [28040; 24687; 31867; 22411]%N ++ runes_of_ascii "`	,
+// " ++ [27880; 37322]%N ++ runes_of_ascii "
+// " ++ [27880; 37322]%N ++ runes_of_ascii "
+string o , crc f32a , T _x ,
+    u32 i64_ `
+`
+    , // @lengthOf(
+}packet Z9_ {
+@tag( //x
+0
+) repeat zchar[
+7
+]  BodyLength , } packet Logon { @rightPad ( ) u8 len`it's`
+    , repeat // " ++ [128512]%N ++ runes_of_ascii " emoji
+u8x f32a , u ,match int as
+chars {[
+0  ] :stringy , [  ""`tick`"" , 4294967296 , 7
+    ,
+//
+// 50% %s
+""it's"" ,
+    //	t
+    """ ++ [233]%N ++ runes_of_ascii "t" ++ [233]%N ++ runes_of_ascii """, 0123456789 ]:
+falsey , ""a\""b""//
+:
+packetx , } , @rightPad
+(	) x @lengthOf( chars
+) `// not a comment` ,
+    @rightPad
+    ( ) @rightPad(
+' ' )
+// " ++ [27880; 37322]%N ++ runes_of_ascii "
+// @lengthOf(
+@lengthOf(x )
+rootA ,  char[] // " ++ [27880; 37322]%N ++ runes_of_ascii "
+_x , } 	 ")).
+Eval vm_compute in ("<<<M72>>>" ++ check (runes_of_ascii "packet // packet A { u8 x, }
+uint8x {
+calculatedFrom
+    {
+repeat
+options1{ char[42 ] packetx ,	len {
+repeat	_x `
+` , int8 rootA // 50% %s
+@calculatedFrom(  ""abc"") `" ++ [28040; 24687; 31867; 22411]%N ++ runes_of_ascii "`, MetaDataX // trailing space 
+@calculatedFrom( ""\n"" )
+    `
+`
+    , match
+leftPad
+as zchar {
+[
+""// no comment""
+//
+// " ++ [27880; 37322]%N ++ runes_of_ascii "
+,0	, """ ++ [128512]%N ++ runes_of_ascii """ ,/// triple
+""" ++ [28040; 24687]%N ++ runes_of_ascii """ ] : MetaDataX ,
+[ """"] :  stringy ,42
+: calculatedFrom ,  65535
+: options1
+    /// triple
+    ,
+//	t
+// " ++ [128512]%N ++ runes_of_ascii " emoji
+} ,
+},	f32 MetaDataX ,//x
+} , lengthOf
+    Foo , } , @rightPad (
+' '
+) //
+char[]options1 @calculatedFrom( ""a\""b"" ) , // 50% %s
+@rightPad
+(' '
+) @tag(	00)  match matchKey
+    as	msg_type { [ ""1"" ] : tag} , zchar[ 00 ]  a1 @lengthOf(asx )
+``
+    ,
+char[ 007 ]
+    A
+    , //	t
+Pad
+, @leftPad ( // @lengthOf(
+'\x00' ) @calculatedFrom( ""a\\"" )
+@calculatedFrom( ""{,}"" )  repeat	trueish {
+MetaDataX@lengthOf(zchar ) ,
+} ,
+}
+")).
+Eval vm_compute in ("<<<M875>>>" ++ check (runes_of_ascii "
+MetaData BodyLength { zchar[ 1 ] MetaDataX
+,	}options {
+}
+// 50% %s
+// @lengthOf(
+options{ options1  =
+    true
+;
+falsey
+=
+    '0'
+; Foo = ""packet"" u // " ++ [27880; 37322]%N ++ runes_of_ascii "
+= ""// no comment""/// triple
+;}
+packet matchKey
+    { @lengthOf(
+    zchar )char[] u8x
+@lengthOf( len)`// not a comment`
+    ,@tag( 42
+    ) @rightPad
+// @lengthOf(
+// `tick` ""quote"" 'q'
+( '0') @rightPad ( '0'
+    ) repeat// trailing space 
+char[] zchar , repeat pack,
+@leftPad
+    // packet A { u8 x, }
+    (
+'\x00' /// triple
+)
+    f32a @calculatedFrom( ""a	b"" )`a\` , @lengthOf( x_y_z ) uint8 _x  @calculatedFrom(
+//x
+// c
+""" ++ [233]%N ++ runes_of_ascii "t" ++ [233]%N ++ runes_of_ascii """ )
+,
+_x { repeat
+    char[
+    10 ] f32a ,}
+    , uint16 len , }
+MetaData charz{ char[]o , uint8x tag
+`crlf
+line`, Header
+    i64_, metadata MetaDataX`a\`, zchar[ 255] calculatedFrom ,u16 Foo  `tab	here`,// trailing space 
+}")).
+Eval vm_compute in ("<<<M1028>>>" ++ check (runes_of_ascii "packet // 50% %s
+asx {float32 repeatCount
+    // 50% %s
+    @lengthOf( asx ) `say ""hi""` ,
+    //x
+    @calculatedFrom( ""packet"" )
+    @lengthOf(
+x )
+    repeat f32a
+    ,
+//x
+// " ++ [128512]%N ++ runes_of_ascii " emoji
+@lengthOf( calculatedFrom ) @tag( 65535// a // b
+)a1 len , }MetaData chars  {zchar[
+1 // trailing space 
+]// a // b
+stringy ,
+zchar[ 4294967296 ] // packet A { u8 x, }
+stringy `" ++ [233]%N ++ runes_of_ascii "` , }
+// 50% %s
+// @lengthOf(
+packet asx  { repeat uint64 o ,	repeat int8 matchKey `a\`, @lengthOf( matchKey)
+repeat metadata{ repeat options1{ x rootA, A @lengthOf( repeatCount
+    ) ,// a // b
+pack,	},
+    } , @tag(4294967296) repeat	int64 matchKey
+    `crlf
+line`, @tag( 1 )repeat zchar[65535 ]  _x `line1
+line2` ,@leftPad ( '\x00' ) @tag( 255)
+    @tag( 0
+)zchar[
+    // " ++ [128512]%N ++ runes_of_ascii " emoji
+    255
+    ] trueish , }
+")).
+Eval vm_compute in ("<<<M4388>>>" ++ check (runes_of_ascii "MetaData asx {
+    // " ++ [27880; 37322]%N ++ runes_of_ascii "
+    charz _x,
+    int8 x_y_z `two words`,
+    i32 charz,
+    repeatCount i64_,
+    u8x calculatedFrom,
+    i8 roots,
+}
+
+MetaData x {
+}
+
+MetaData len {
+    matchKey packetx,
+    uint8 uint8x,
+}
+
+root packet body {
+    u128 @calculatedFrom(""""),
+    repeat trueish {
+        char[] asx @lengthOf(body) `u8 x,`,
+        match body as i8i8 {
+            ""a\""b"" : packetx,
+            ""a	b"" : i64_,
+            ["""", 42] : MetaDataX,
+            [""" ++ [28040; 24687]%N ++ runes_of_ascii """] : pack,
+            3 : x,
+            [0, 007] : Z9_,
+        },
+        char[10] int `// not a comment`,
+        u repeatCount `{ , }`,
+    },
+    @lengthOf(trueish)
+    char asx `doc`,
+    @tag(0)
+    i64_,
+}
+
+MetaData lengthOf {
+    char[] float `crlf
+    line`,// " ++ [128512]%N ++ runes_of_ascii " emoji
+}")).
+Eval vm_compute in ("<<<M559>>>" ++ check (runes_of_ascii "// " ++ [27880; 37322]%N ++ runes_of_ascii "
+packet
+    //	t
+    chars
+{ Z9_, @tag(
+    7
+)//x
+leftPad@lengthOf( asx	) //
+`crlf
+line` ,	char Z9_ `crlf
+line`	,	T
+matchKey ,
+    repeat
+    uint64	crc`
+`	, } root packet Header {
+    @tag( 42 ) len {match asx as len {// trailing space 
+[
+/// triple
+// `tick` ""quote"" 'q'
+65535 , ""\n""
+    ,
+""1"", ""1""  ,4294967296
+    /// triple
+    ,  255 ] : pack
+,
+""\" ++ [233]%N ++ runes_of_ascii """ // trailing space 
+: o
+    // " ++ [128512]%N ++ runes_of_ascii " emoji
+    , },
+// 50% %s
+//
+u32 crc
+    `crlf
+line` , char[
+1 ] int //	t
+, string_	{
+    // packet A { u8 x, }
+    repeat
+leftPad	T `" ++ [233]%N ++ runes_of_ascii "`
+    , match asx	as Pad{ 255//	t
+: packetx 7 :
+/// triple
+// a // b
+trueish
+    , [
+3 ] :
+int , ""// no comment"" :
+    // " ++ [27880; 37322]%N ++ runes_of_ascii "
+    chars//
+}
+    , repeat int16
+Header
+,
+    }, } ,} 	 ")).
+Eval vm_compute in ("<<<M3450>>>" ++ check (runes_of_ascii "options {
+    LittleEndian = true;
+    StringPrefixLenType = u8;
+    FixedStringPadFromLeft = false;
+    FixedStringPadChar = '0';
+}
+packet Order {
+    repeat string Px,
+    repeat char[2] Qty,
+    string Tail,
+    char[] OrderId,
+    int8 tag7,
+    int64 Flags,
+}
+packet Party {
+    Order,
+    f32 lastPx,
+    f32 Note,
+    string x,
+}
+packet Logon {
+    uint8 OrderId,
+    string msgKind,
+    int32 lastPx,
+}
+packet Ack {
+}
+packet Cancel {
+    repeat char[5] Note,
+    repeat i32 x,
+    Ack,
+    repeat InF16 {
+        repeat i8 sym,
+    },
+    char[1] Acct,
+}
+root packet Fill {
+    i32 price,
+    @leftPad(' ') char[8] msgKind,
+    char[] Acct,
+    char[] Note,
+    uint64 venue,
+}
+")).
+Eval vm_compute in ("<<<M817>>>" ++ check (runes_of_ascii "root
+    packet
+    u8x { } //
+packet Header
+{ @calculatedFrom( ""{,}""/// triple
+)
+repeat a1
+body	`// not a comment` ,
+} root packet o // c
+{
+    uint8 Header`" ++ [233]%N ++ runes_of_ascii "` , }packet tag {
+repeat x_y_z { uint16
+msg_type //x
+,
+}
+, }	root packet Z9_ {zchar[
+4294967296]
+    options1 ,
+// @lengthOf(
+// packet A { u8 x, }
+@tag(
+    // `tick` ""quote"" 'q'
+    0123456789 ) u32
+    i64_
+    @calculatedFrom( ""abc"" )	`a\` , match leftPad  as // 50% %s
+packetx { 00
+: metadata
+    ,
+    65535: chars, ""// no comment""
+    :  options1,},// packet A { u8 x, }
+repeat zchar[1
+]
+    pack
+    ,	@lengthOf(trueish )	repeat i32
+    crc
+    `
+` , int16 crc@lengthOf( zchar )
+, }
+")).
+Eval vm_compute in ("<<<M3578>>>" ++ check (runes_of_ascii "packet repeatCount {
+    matchKey roots `crlf
+    line`,
+    char int @lengthOf(x_y_z),
+    calculatedFrom @calculatedFrom(""a\""b""),
+}
+
+root packet f32a {
+    /// triple
+    // trailing space 
+    @rightPad('0')
+    repeat u8 Pad,
+    trueish calculatedFrom,
+    @calculatedFrom(""" ++ [28040; 24687]%N ++ runes_of_ascii """)
+    match msg_type as pack {
+        ""abc"" : repeatCount,
+        ""{,}"" : repeatCount,
+        ""a	b"" : calculatedFrom,
+    },
+}
+
+root packet repeatCount {
+    int32 stringy,/// triple
+}
+
+root packet BodyLength {
+    @lengthOf(As)
+    //x
+    repeat charz {
+        match chars as chars {
+            0 : MetaDataX,
+            ""\n"" : crc,
+        },
     },
 }")).
-Eval vm_compute in ("<<<M1481>>>" ++ check (runes_of_ascii "
-
-  root
-
-    packet
-P
-
-{ string
-s
-
-    ,	}
-")).
-Eval vm_compute in ("<<<M1380>>>" ++ check (runes_of_ascii "// top
-MetaData // c0
-o // c1
-{ }
+Eval vm_compute in ("<<<M3424>>>" ++ check (runes_of_ascii "// top
+options // c0
+{
+    // c1
+FixedStringPadChar =
     // c3
+'0'
+    // c4
+; // c5a
+  // c5b
+}
+    // c6
+packet // c7
+Q // c8
+{ // c9
+zchar[ // c10a
+  // c10b
+4 ] z ,
+    // c14
+@rightPad ( '\x00' // c17
+) // c18a
+  // c18b
+char[ // c19a
+  // c19b
+3
+    // c20
+] // c21a
+  // c21b
+n // c22
+, // c23a
+  // c23b
+char[
+    // c24
+5 // c25
+] d // c27
+,
+    // c28
+}
+    // c29
+root // c30
+packet // c31
+R {
+    // c33
+Q // c34
+, // c35a
+  // c35b
+zchar[ // c36a
+  // c36b
+8 // c37a
+  // c37b
+] // c38
+top , // c40
+repeat zchar[
+    // c42
+2
+    // c43
+] // c44a
+  // c44b
+zs // c45a
+  // c45b
+,
+    // c46
+} // c47
 ")).
-Eval vm_compute in ("<<<M1102>>>" ++ check (runes_of_ascii "root packet // c
-u128 { chars `it's` , }")).
-Eval vm_compute in ("<<<M1672>>>" ++ check (runes_of_ascii "packet float {
+Eval vm_compute in ("<<<M978>>>" ++ check (runes_of_ascii "
+MetaData
+// c
+// 50% %s
+calculatedFrom {
+    zchar[10
+    ]charz //	t
+`100% of %d` , zchar[
+//
+// " ++ [128512]%N ++ runes_of_ascii " emoji
+7 ] chars
+,
+o leftPad//
+`
+`, Packet float `
+`  , f32 chars, string u , } packet Foo {
+} root
+packet
+leftPad	{ tag @lengthOf( As ) `crlf
+line` ,
+char[] As `
+` , repeat char[ 007	]
+    // " ++ [27880; 37322]%N ++ runes_of_ascii "
+    u8x, repeat body { stringy { char
+string_
+, }
+    ,} ,
+    }
+    //x
+    root packet Z9_ { }
+    root
+    packet charz
+{
+    //x
+    @tag(// 50% %s
+255 /// triple
+) repeat f32a{
+zchar[ 0 ]// trailing space 
+Z9_
+    // `tick` ""quote"" 'q'
+    @lengthOf(	Z9_ ) `tab	here` , }/// triple
+, }
+")).
+Eval vm_compute in ("<<<M4000>>>" ++ check (runes_of_ascii "MetaData o {
+    char[] a1 `// not a comment`,
+    metadata rootA `// not a comment`,
+    int8 matchKey `{ , }`,
+    i64 Packet,
+    i16 pack,
+    len trueish,
+}// @lengthOf(
+
+packet Packet {
+    // 50% %s
+    @calculatedFrom(""// no comment"")
+    char[0] zchar @calculatedFrom(""x y"") `100% of %d`,
+    @lengthOf(o)
+    @rightPad('0')
+    @calculatedFrom(""\" ++ [233]%N ++ runes_of_ascii """)
+    match lengthOf as Packet {
+        // trailing space 
+        [00, 4294967296, ""a\\"", ""{,}""] : _x,
+    },
+    @leftPad('0')
+    @lengthOf(matchKey)
+    x repeatCount,
+    string_ `line1
+        line2`,
+}// " ++ [27880; 37322]%N)).
+Eval vm_compute in ("<<<M1075>>>" ++ check (runes_of_ascii "packet A {
+// trailing space 
+// @lengthOf(
+@rightPad ( )float64 crc
+    @lengthOf( //
+packetx )
+    ,
+@tag(
+4294967296 )
+char[	255 ]	f32a @calculatedFrom(""" ++ [28040; 24687]%N ++ runes_of_ascii """
+)// @lengthOf(
+``
+,
+packetx	{
+repeat
+    chars {
+repeat	zchar[
+3 ]charz, // @lengthOf(
+char[ // 50% %s
+007
+]	falsey `u8 x,` , }, metadata `{ , }` , T{ char[]	uint8x
+,
+uint8
+    MetaDataX`100% of %d`// c
+, _x @calculatedFrom( ""a\\""  ) , }	, },
+    // " ++ [27880; 37322]%N ++ runes_of_ascii "
+    repeat i16 metadata `u8 x,`
+    , u8
+stringy
+    @calculatedFrom(
+    """ ++ [233]%N ++ runes_of_ascii "t" ++ [233]%N ++ runes_of_ascii """
+    ) , string u128	@lengthOf(x_y_z  ) `doc`
+    ,}")).
+Eval vm_compute in ("<<<M3762>>>" ++ check (runes_of_ascii "packet a1 {
+    u8 Packet `it's`,
+    @leftPad()
+    msg_type,
+    @lengthOf(crc)
+    As repeatCount,
+    // 50% %s
+    // c
+    @calculatedFrom(""a\\"")
+    @calculatedFrom(""" ++ [233]%N ++ runes_of_ascii "t" ++ [233]%N ++ runes_of_ascii """)
+    @tag(00)
+    i16 As,
+    @lengthOf(int)
+    matchKey {
+        len {
+            zchar[255] crc,
+            repeat char[] charz,
+            repeat i8 x_y_z `{ , }`,
+            rootA @calculatedFrom(""" ++ [28040; 24687]%N ++ runes_of_ascii """) `
+            `,
+        },
+    },
 }
 
+// a // b
+MetaData metadata {
+    u16 x,
+    i8i8 crc,
+    f32 Packet,
+    float64 chars,
+}")).
+Eval vm_compute in ("<<<M205>>>" ++ check (runes_of_ascii "packet pack// " ++ [27880; 37322]%N ++ runes_of_ascii "
+{ zchar[	007] chars
+, int {
+char[] asx `two words` , zchar[ 42]a1`crlf
+line`
+    , tag
+Packet, tag @lengthOf( i8i8 )	`crlf
+line`
+, } ,
+uint16 Packet`two words` ,	@calculatedFrom( ""abc"" ) @calculatedFrom(
+// c
+// " ++ [128512]%N ++ runes_of_ascii " emoji
+""" ++ [28040; 24687]%N ++ runes_of_ascii """
+)// `tick` ""quote"" 'q'
+@lengthOf(
+MetaDataX )
+char[7
+]
+    roots  @lengthOf(
+matchKey ) , }
+options { tag =  '0' packetx =""packet"";
+matchKey
+= char[ 3 ]
+;
+    MetaDataX = true
+    } root	packet	repeatCount { T
+@lengthOf(	int) // @lengthOf(
+, }
+")).
+Eval vm_compute in ("<<<M3436>>>" ++ check (runes_of_ascii "root packet // c1
+Frame // c2
+{ u8 K , // c6
+Logon
+    // c7
+first
+    // c8
+, // c9a
+  // c9b
+match
+    // c10
+K // c11
+as // c12a
+  // c12b
+Body {
+    // c14
+1 // c15a
+  // c15b
+: // c16
+Logon // c17
+, 2
+    // c19
+: // c20
+Logout // c21a
+  // c21b
+, // c22a
+  // c22b
+} // c23a
+  // c23b
+, // c24
+} packet
+    // c26
+Logon // c27
+{ // c28a
+  // c28b
+string
+    // c29
+user // c30
+, // c31a
+  // c31b
+} packet Logout // c34
+{
+    // c35
+u16 // c36
+reason
+    // c37
+, } ")).
+Eval vm_compute in ("<<<M1358>>>" ++ check (runes_of_ascii "root packet
+len { @lengthOf(MetaDataX
+    ) int
+@lengthOf( // c
+u8x ) `" ++ [233]%N ++ runes_of_ascii "` , @calculatedFrom(""1""
+//
+// c
+) @lengthOf(Packet ) u128@lengthOf(
+    Foo )	`line1
+line2` , zchar[ 10 ]u128 // `tick` ""quote"" 'q'
+@lengthOf( i64_
+), rootA uint8x ,
+    // 50% %s
+    f64 falsey`a\` ,  repeat char[]asx ,
+repeat
+chars As `crlf
+line` ,int	{ repeat matchKey
+`` , } ,
+    // " ++ [128512]%N ++ runes_of_ascii " emoji
+    match lengthOf
+as
+trueish{	""\n"":
+    Foo ,
+""\" ++ [233]%N ++ runes_of_ascii """:
+i8i8,} ,}	options
+{
+}")).
+Eval vm_compute in ("<<<M672>>>" ++ check (runes_of_ascii "packet body	{}
+    //x
+    packet Z9_
+    // packet A { u8 x, }
+    { zchar[  10	] _x
+    `two words` , @tag(
+    // `tick` ""quote"" 'q'
+    3) Z9_`" ++ [233]%N ++ runes_of_ascii "`
+    , @leftPad ( ' ') @lengthOf(
+lengthOf
+)
+repeat char[ 00 ]u , i32 u128
+`{ , }` , }
+root packet stringy { match Foo
+as _x {255// " ++ [27880; 37322]%N ++ runes_of_ascii "
+: int , [42,""1"" ,""1""	,"""" ,  ""\" ++ [233]%N ++ runes_of_ascii """ , ""it's"" , 65535 ,
+""" ++ [28040; 24687]%N ++ runes_of_ascii """ ] : body,[ 007
+//x
+// packet A { u8 x, }
+] /// triple
+: msg_type ,} ,
+}
+// " ++ [128512]%N ++ runes_of_ascii " emoji
+")).
+Eval vm_compute in ("<<<M489>>>" ++ check (runes_of_ascii "  packet
+Packet {
+    //
+    @calculatedFrom( ""packet"")
+    repeat charz`doc`, } root packet // 50% %s
+body { leftPad//x
+{
+repeat calculatedFrom{repeat
+char[] calculatedFrom ,
+Header { uint8
+x	@calculatedFrom(
+    """ ++ [28040; 24687]%N ++ runes_of_ascii """) , lengthOf @lengthOf(
+x )  ,}, // " ++ [128512]%N ++ runes_of_ascii " emoji
+} , match packetx as i8i8// @lengthOf(
+{
+255 :
+a1
+,00
+    : Header , },// packet A { u8 x, }
+},  }
+    options	{
+    Z9_ = char[ 0 /// triple
+]
+}")).
+Eval vm_compute in ("<<<M4257>>>" ++ check (runes_of_ascii "MetaData	// `tick` ""quote"" 'q'
+Packet
+	{
+calculatedFrom
+	BodyLength `{ , }` ,
+	int64  i8i8 `{ , }` 
+, // `tick` ""quote"" 'q'
+  	} packet chars	{  
+  //
+	// `tick` ""quote"" 'q'
+	} 	 // a // b
+    	root
+    packet
+
+    tag
+
+{
+@rightPad( 	 // trailing space 
+) 
+char[ 7]  roots 
+
+// 50% %s
+@calculatedFrom(
+
+""it's"") 
+	    // c
+
+// @lengthOf(
+`it's`	, 
+	    // @lengthOf(
+	// trailing space 
+
+	}")).
+Eval vm_compute in ("<<<M3827>>>" ++ check (runes_of_ascii "packet 
+falsey
+
+    {
+char 
+Logon	@calculatedFrom(
+
+""" ++ [128512]%N ++ runes_of_ascii """)	,	repeat
+
+    leftPad Header
+
+    ,
+} packet	Header
+{ 
+char[3
+
+]	// " ++ [128512]%N ++ runes_of_ascii " emoji
+
+tag @lengthOf(  trueish )
+    `two words` ,
+
+    match packetx as options1{ 7
+	:	i64_ 	 // c
+		""{,}"" :	x 
+,
+[
+
+    """ ++ [28040; 24687]%N ++ runes_of_ascii """
+
+    ,0 ,
+""packet""
+
+    ]:
+
+    _x
+    [
+
+7
+
+,
+00 ]
+: i64_ // trailing space 
+  ""a\""b"": 
+As,
+    },
+    }
+
+")).
+Eval vm_compute in ("<<<M681>>>" ++ check (runes_of_ascii "MetaData  repeatCount{
+}  root
+//x
+// 50% %s
+packet
+A {@tag( // @lengthOf(
+0) @tag( 10	)
+    match metadata as
+tag {
+007 : u [ 10 , ""a\\""
+    , ""a\""b"" , 00 , 255
+    , ""it's""
+    , 3
+    ] :
+    f32a  } ,char[
+    // c
+    0123456789 ] int , }
+    packet trueish{ float { zchar[ 00]MetaDataX @lengthOf(leftPad ) `it's`,}
+// @lengthOf(
+// `tick` ""quote"" 'q'
+,
+}
+")).
+Eval vm_compute in ("<<<M74>>>" ++ check (runes_of_ascii "// `tick` ""quote"" 'q'
+packet
+u { }  MetaData Packet { int64 u128//
+, x crc `
+` ,
+    float64 len ,
+f32
+// @lengthOf(
+//
+A `
+`, // 50% %s
+}
+//x
+// `tick` ""quote"" 'q'
+root
+packet
+crc { body {
+    f64
+leftPad , a1  , }
+    , repeat uint8x{ repeat f32 string_ `
+` ,
+int8
+    // " ++ [27880; 37322]%N ++ runes_of_ascii "
+    T @calculatedFrom(
+"""" ) `say ""hi""` ,
+uint8 repeatCount ,} , }
+")).
+Eval vm_compute in ("<<<M4219>>>" ++ check (runes_of_ascii "root packet x_y_z {
+    repeat options1 {
+        int8 len,
+        zchar[00] A @calculatedFrom(""CRC32""),
+        zchar[255] body `line1
+                line2`,
+        char[3] MetaDataX,
+    },
+    string zchar @calculatedFrom(""\" ++ [233]%N ++ runes_of_ascii """),
+}
+
+packet roots {
+    @rightPad('\x00')
+    repeat len,
+    string options1,
+    string As `" ++ [233]%N ++ runes_of_ascii "`,
+}")).
+Eval vm_compute in ("<<<M1197>>>" ++ check (runes_of_ascii "
+root packet
+    packetx	{@calculatedFrom( ""abc"")
+    As@calculatedFrom( """ ++ [233]%N ++ runes_of_ascii "t" ++ [233]%N ++ runes_of_ascii """ ) ,
+@lengthOf(
+A  ) @rightPad ( '0')@calculatedFrom(
+""it's""	)
+    uint8 u // trailing space 
+@lengthOf( u8x ) ,  @leftPad (	'0'
+) @tag( 0
+) @lengthOf(Packet ) string_
+// 50% %s
+//
+,
+    // a // b
+    matchKey @calculatedFrom( ""abc"" )
+,}
+")).
+Eval vm_compute in ("<<<M774>>>" ++ check (runes_of_ascii "packet a1{@calculatedFrom( """ ++ [128512]%N ++ runes_of_ascii """
+) @calculatedFrom(
+    ""`tick`""
+) // " ++ [128512]%N ++ runes_of_ascii " emoji
+@leftPad ( ) u16 rootA `{ , }` ,
+    char
+    Z9_ `" ++ [233]%N ++ runes_of_ascii "`	, repeat calculatedFrom
+    `` // @lengthOf(
+, // @lengthOf(
+@lengthOf( MetaDataX	)  @calculatedFrom( ""CRC32"") @rightPad(	'\x00'  ) zchar[ 1
+]msg_type`say ""hi""`
+    ,}
+//x
+")).
+Eval vm_compute in ("<<<M567>>>" ++ check (runes_of_ascii "MetaData  T { float32 pack `` ,
+i64_ i64_
+    `" ++ [233]%N ++ runes_of_ascii "` , Packet o ,
+//	t
+//
+i64_ Logon , As A , //
+} packet a1
+{@tag(/// triple
+0123456789
+) match lengthOf as As // 50% %s
+{
+    ""a\\"" :
+repeatCount """ ++ [128512]%N ++ runes_of_ascii """
+    :
+x
+[
+65535 , 42
+    ]
+    : roots ,
+[ 10 ,
+0] : lengthOf // trailing space 
+, }
+,} 	 ")).
+Eval vm_compute in ("<<<M3571>>>" ++ check (runes_of_ascii "// top
+packet roots {
+    // c2
+    @lengthOf(Pad)
+    char[4294967296] options1 @calculatedFrom(""`tick`""),
+    // c13
+    lengthOf,// c15
+    @tag(7)
+    // c18
+    repeat T,// c21
+    @calculatedFrom(""a	b"")
+    // c24a
+    // c24b
+    char[] Packet @lengthOf(_x) `doc`,// c31
+}")).
+Eval vm_compute in ("<<<M1517>>>" ++ check (runes_of_ascii "// 50% %s
+packet packet	a1
+    { zchar[
+// a // b
+// 50% %s
+007]
+T `it's`
+    ,@rightPad
+    // a // b
+    (
+'\x00')
+    o repeatCount , }  packet Logon {  }packet	Logon //x
+{ repeat // " ++ [128512]%N ++ runes_of_ascii " emoji
+uint16 u128
+    //
+    `a\`,
+falsey
+@calculatedFrom(""packet"" ) ,
+    } 	 ")).
+Eval vm_compute in ("<<<M1664>>>" ++ check (runes_of_ascii "// 50% %s
+packet	a1
+    { zchar[
+// a // b
+// 50% %s
+007]
+T `it's`
+    ,@rightPad
+    // a // b
+    (
+'\x00')
+    o repeatCount , }  packet Logon {  }packet	Logon //x
+{ repeat // " ++ [128512]%N ++ runes_of_ascii " emoji
+uint16 u128
+    //
+    `a\`,
+@lengthOf(
+@calculatedFrom(""packet"" ) ,
+    } 	 ")).
+Eval vm_compute in ("<<<M1696>>>" ++ check (runes_of_ascii "// 50% %s
+packet	a1
+    { zchar[
+// a // b
+// 50% %s
+007]
+T `it's`
+    ,@rightPad
+    // a // b
+    (
+'\x00')
+    o repeatCount , }  packet Logon {  }packet	Logon //x
+{ repeat // " ++ [128512]%N ++ runes_of_ascii " emoji
+uint16 u128
+    //
+    "" `a\`,
+falsey
+@calculatedFrom(""packet"" ) ,
+    } 	 ")).
+Eval vm_compute in ("<<<M1578>>>" ++ check (runes_of_ascii "// 50% %s
+packet	a1
+    { zchar[
+// a // b
+// 50% %s
+007]
+T `it's`
+    ,@rightPad
+    // a // b
+    (
+'\x00'o
+    ) repeatCount , }  packet Logon {  }packet	Logon //x
+{ repeat // " ++ [128512]%N ++ runes_of_ascii " emoji
+uint16 u128
+    //
+    `a\`,
+falsey
+@calculatedFrom(""packet"" ) ,
+    } 	 ")).
+Eval vm_compute in ("<<<M1576>>>" ++ check (runes_of_ascii "// 50% %s
+packet	a1
+    { zchar[
+// a // b
+// 50% %s
+007]
+T `it's`
+    ,@rightPad
+    // a // b
+    (
+'\x00'
+    o repeatCount , }  packet Logon {  }packet	Logon //x
+{ repeat // " ++ [128512]%N ++ runes_of_ascii " emoji
+uint16 u128
+    //
+    `a\`,
+falsey
+@calculatedFrom(""packet"" ) ,
+    } 	 ")).
+Eval vm_compute in ("<<<M1651>>>" ++ check (runes_of_ascii "// 50% %s
+packet	a1
+    { zchar[
+// a // b
+// 50% %s
+007]
+T `it's`
+    ,@rightPad
+    // a // b
+    (
+'\x00')
+    o repeatCount , }  packet Logon {  }packet	Logon //x
+{ repeat // " ++ [128512]%N ++ runes_of_ascii " emoji
+uint16 u128
+    //
+    ,
+falsey
+@calculatedFrom(""packet"" ) ,
+    } 	 ")).
+Eval vm_compute in ("<<<M1689>>>" ++ check (runes_of_ascii "// 50% %s
+packet	a1
+    { zchar[
+// a // b
+// 50% %s
+007]
+T `it's`
+    ,@rightPad
+    // a // b
+    (
+'\x00')
+    o repeatCount , }  packet Logon {  }packet	Logon //x
+{ repeat // " ++ [128512]%N ++ runes_of_ascii " emoji
+uint16 u128
+    //
+    `a\`,
+falsey
+@calculatedFrom(""packet"" ) ,")).
+Eval vm_compute in ("<<<M3609>>>" ++ check (runes_of_ascii "packet  u8x 
+{options1
+
+    {
+	u32
+
+    roots
+
+@lengthOf(zchar
+	)
+    ,
+	char[ 4294967296 ]	Packet 
+@lengthOf(
+	A
+)
+
+    `{ , }`
+
+    ,
+float
+	@lengthOf( options1
+    )	// 50% %s
+  ,
+u
+@lengthOf( x )
+
+`crlf
+line` ,// " ++ [27880; 37322]%N ++ runes_of_ascii "
+	}
+
+    ,  }")).
+Eval vm_compute in ("<<<M25>>>" ++ check (runes_of_ascii "root packet zchar{
+@calculatedFrom( ""\" ++ [233]%N ++ runes_of_ascii """)
+@rightPad (
+    // a // b
+    )
+@rightPad	( '\x00' ) int8 Foo ,
+    } packet calculatedFrom { u8x `doc`
+    , }	MetaData x {
+}options{ repeatCount
+    = ""x y"" ;leftPad = """ ++ [128512]%N ++ runes_of_ascii """
+tag= uint8}
+//	t
+")).
+Eval vm_compute in ("<<<M187>>>" ++ check (runes_of_ascii "
+MetaData lengthOf
+    { zchar[ 007
+    ] u8x `u8 x,` // packet A { u8 x, }
+,	char[ 0123456789 ]
+Logon `{ , }`
+    ,
+//
+//
+f64 o  `{ , }`
+, char[
+007 //	t
+]	tag, char stringy// c
+`100% of %d` ,
+Pad uint8x
+    ,}
+/// triple
+")).
+Eval vm_compute in ("<<<M4001>>>" ++ check (runes_of_ascii "packet
+
+tag{ // @lengthOf(
+  match
+zchar  as 
+A  {
+0123456789
+    :
+body, 
+255 :Z9_ 3:  _x} , int16
+
+pack
+@lengthOf(
+x_y_z 	 //
+  )  , } MetaData
+
+    lengthOf	{ 
+char[
+255 
+]
+	Header
+
+`" ++ [233]%N ++ runes_of_ascii "` //x
+    	,  // c
+
+}
+")).
+Eval vm_compute in ("<<<M711>>>" ++ check (runes_of_ascii "packet falsey { }
+MetaData
+Logon
+    //
+    { }  packet//	t
+x_y_z
+    {
+} packet repeatCount {
+    lengthOf
+@calculatedFrom( """ ++ [28040; 24687]%N ++ runes_of_ascii """) `u8 x,`
+, }options { Z9_= false ;
+Foo=
+float64  ; }
+// packet A { u8 x, }
+")).
+Eval vm_compute in ("<<<M3287>>>" ++ check (runes_of_ascii "// top
+packet
+    // c0
+u8x
+    // c1
+{
+    // c2
+}
+    // c3
+MetaData
+    // c4
+crc
+    // c5
+{
+    // c6
+char[
+    // c7
+4294967296
+    // c8
+]
+    // c9
+Foo
+    // c10
+,
+    // c11
+}
+    // c12
+")).
+Eval vm_compute in ("<<<M3423>>>" ++ check (runes_of_ascii "options {
+    FixedStringPadChar = '0';
+}
+packet Q {
+    zchar[4] z,
+    @rightPad('\x00') char[3] n,
+    char[5] d,
+}
+root packet R {
+    Q,
+    zchar[8] top,
+    repeat zchar[2] zs,
+}
+")).
+Eval vm_compute in ("<<<M81>>>" ++ check (runes_of_ascii "
+packet Logon  {
+match o
+as x_y_z {// `tick` ""quote"" 'q'
+""x y""
+    /// triple
+    : matchKey , ""\n"" :
+pack """ ++ [128512]%N ++ runes_of_ascii """ :	int[ """ ++ [128512]%N ++ runes_of_ascii """ //	t
+,
+""// no comment""
+] :  x }// @lengthOf(
+,} // c")).
+Eval vm_compute in ("<<<M1235>>>" ++ check (runes_of_ascii "
+root packet
+    f32a { } MetaData tag { }
+    //	t
+    packet i8i8{
+    @lengthOf(options1
+) zchar[ 1 ] BodyLength @lengthOf( u
+    // `tick` ""quote"" 'q'
+    )
+    ,	}")).
+Eval vm_compute in ("<<<M676>>>" ++ check (runes_of_ascii "
+options
+    {
+options1
+=false ; x_y_z =
+""abc"";A =  ""packet""
+    trueish = // " ++ [128512]%N ++ runes_of_ascii " emoji
+42
+    ; } options // " ++ [27880; 37322]%N ++ runes_of_ascii "
+{ rootA = true }MetaData i64_{ string
+uint8x ,}")).
+Eval vm_compute in ("<<<M3936>>>" ++ check (runes_of_ascii "options {
+    trueish = 42
+    int = ' '
+    Packet = 007;
+    asx = string;
+}
+
+root packet u8x {
+}
+
+MetaData int {
+    string charz,// `tick` ""quote"" 'q'
+}")).
+Eval vm_compute in ("<<<M2126>>>" ++ check (runes_of_ascii "MetaData BodyLength
+{ int8 Foo
+, string
+    MetaDataX , float zchar ,pack options1
+,asx string_ string_, }
+packet u8x {Foo@lengthOf(charz )
+`" ++ [28040; 24687; 31867; 22411]%N ++ runes_of_ascii "`,  }
+")).
+Eval vm_compute in ("<<<M585>>>" ++ check (runes_of_ascii "// packet A { u8 x, }
+options	{ calculatedFrom	= 0123456789 } // packet A { u8 x, }
+packet // a // b
+Pad { }
+    // 50% %s
+    packet zchar	{
+}
+")).
+Eval vm_compute in ("<<<M879>>>" ++ check (runes_of_ascii "options { // packet A { u8 x, }
+f32a
+=
+string// " ++ [27880; 37322]%N ++ runes_of_ascii "
+; // @lengthOf(
+} MetaData
+    // `tick` ""quote"" 'q'
+    T
+{ calculatedFrom  BodyLength	, }")).
+Eval vm_compute in ("<<<M2062>>>" ++ check (runes_of_ascii "MetaData BodyLength
+{ Foo int8
+, string
+    MetaDataX , float zchar ,pack options1
+,asx string_, }
+packet u8x {Foo@lengthOf(charz )
+`" ++ [28040; 24687; 31867; 22411]%N ++ runes_of_ascii "`,  }
+")).
+Eval vm_compute in ("<<<M1296>>>" ++ check (runes_of_ascii "// `tick` ""quote"" 'q'
+MetaData chars {	i16 tag,
+len // a // b
+string_,
+i64 i8i8
+`tab	here` , char[3 ]
+chars , rootA asx , char
+options1, } 	 ")).
+Eval vm_compute in ("<<<M2274>>>" ++ check (runes_of_ascii "options
+    {
+x_y_z// " ++ [27880; 37322]%N ++ runes_of_ascii "
+= 10 ; }
 packet body {
-}
-//x")).
-Eval vm_compute in ("<<<M1038>>>" ++ check (runes_of_ascii "packet A {
- u8 x `d 	`, // c 	
+    @calculatedFrom(
+// trailing space 
+// " ++ [27880; 37322]%N ++ runes_of_ascii "
+""1""
+)	match match T as Foo
+    {
+255 :T , }
+,}")).
+Eval vm_compute in ("<<<M1979>>>" ++ check (runes_of_ascii "
+packet leftPad {
+@leftPad( '0')
+u32
+i64_ `100% of %d` true repeat// 50% %s
+i8 chars
+    ,
+} MetaData
+    f32a
+{ // packet A { u8 x, }
 }")).
-Eval vm_compute in ("<<<M1048>>>" ++ check (runes_of_ascii "packet A {
- u8 x `d" ++ [65279]%N ++ runes_of_ascii "`, // c" ++ [65279]%N ++ runes_of_ascii "
+Eval vm_compute in ("<<<M2184>>>" ++ check (runes_of_ascii "MetaData BodyLength
+{ int8 Foo
+, string
+    MetaDataX , float zchar ,pack options1
+,asx string_, }
+packet u8x {Foo@lengthOf(charz )
+`" ++ [28040; 24687; 31867; 22411]%N ++ runes_of_ascii "`")).
+Eval vm_compute in ("<<<M2279>>>" ++ check (runes_of_ascii "options
+    {
+x_y_z// " ++ [27880; 37322]%N ++ runes_of_ascii "
+= 10 ; }
+packet body {
+    @calculatedFrom(
+// trailing space 
+// " ++ [27880; 37322]%N ++ runes_of_ascii "
+""1""
+)	match T T as Foo
+    {
+255 :T , }
+,}")).
+Eval vm_compute in ("<<<M2340>>>" ++ check (runes_of_ascii "options
+    {
+x_y_z// " ++ [27880; 37322]%N ++ runes_of_ascii "
+= 10 ; }
+packet body {
+    @calculatedFrom(
+// trailing spac@e 
+// " ++ [27880; 37322]%N ++ runes_of_ascii "
+""1""
+)	match T as Foo
+    {
+255 :T , }
+,}")).
+Eval vm_compute in ("<<<M2023>>>" ++ check (runes_of_ascii "
+packet leftPad {
+@leftPad( '0')
+u32
+i64_ `100% of %d` ,repeat// 50% %s
+i8 chars
+    ,
+} MetaData
+    f32a
+{ // packet A { u8 x, }
+=")).
+Eval vm_compute in ("<<<M3628>>>" ++ check (runes_of_ascii "
+options {
+
+    string_=  """ ++ [128512]%N ++ runes_of_ascii """
+	; lengthOf=string T  // c
+      =
+uint16
+
+;int
+	=zchar[ 
+    //x
+      3 
+] ;
+    A =	""1""
+
+    ;}
+")).
+Eval vm_compute in ("<<<M2328>>>" ++ check (runes_of_ascii "options
+    {
+x_y_z// " ++ [27880; 37322]%N ++ runes_of_ascii "
+= 10 ; }
+packet body {
+    @calculatedFrom(
+// trailing space 
+// " ++ [27880; 37322]%N ++ runes_of_ascii "
+""1""
+)	match T as Foo
+    {
+255 :T , }
+,")).
+Eval vm_compute in ("<<<M2011>>>" ++ check (runes_of_ascii "
+packet leftPad {
+@leftPad( '0')
+u32
+i64_ `100% of %d` ,repeat// 50% %s
+i8 chars
+    ,
+} MetaData
+    
+{ // packet A { u8 x, }
 }")).
-Eval vm_compute in ("<<<M1173>>>" ++ check (runes_of_ascii "root packet pack { } // c
+Eval vm_compute in ("<<<M1981>>>" ++ check (runes_of_ascii "
+packet leftPad {
+@leftPad( '0')
+u32
+i64_ `100% of %d` ,// 50% %s
+i8 chars
+    ,
+} MetaData
+    f32a
+{ // packet A { u8 x, }
+}")).
+Eval vm_compute in ("<<<M2415>>>" ++ check (runes_of_ascii "MetaData
+    calculatedFrom
+{ zchar[   ]
+    As`tab	here`,
+    }// trailing space 
+options  { roots ='\x00' ; } packet A
+{ }
 ")).
-Eval vm_compute in ("<<<M1064>>>" ++ check (runes_of_ascii "// a// bpacket A {}")).
-Eval vm_compute in ("<<<M981>>>" ++ check (runes_of_ascii "packet A {
+Eval vm_compute in ("<<<M2334>>>" ++ check (runes_of_ascii "options
+    {
+x_y_z// " ++ [27880; 37322]%N ++ runes_of_ascii "
+= 10 ; }
+packet body {
+    @calculatedFrom(
+// trailing space 
+// " ++ [27880; 37322]%N ++ runes_of_ascii "
+""1""
+)	match T as Foo
+    {
+2")).
+Eval vm_compute in ("<<<M3381>>>" ++ check (runes_of_ascii "
+packet	B 
+{
+	u8 a
+,string
+s ,
+
+    } root packet P {  u16 
+L @lengthOf( B
+
+)
+
+    ,
+	B , 
+u8
+
+    t
+    ,
+	} ")).
+Eval vm_compute in ("<<<M1840>>>" ++ check (runes_of_ascii "packet o ' '
+    roots `it's`
+// trailing space 
+//x
+, char[ 42
+    ]  A, // " ++ [27880; 37322]%N ++ runes_of_ascii "
+f64
+repeatCount
+    `crlf
+line`
+,}")).
+Eval vm_compute in ("<<<M1923>>>" ++ check (runes_of_ascii "packet o {
+    roots `it's`
+// trailing space 
+//x
+, char[ 42
+    ]  A"", // " ++ [27880; 37322]%N ++ runes_of_ascii "
+f64
+repeatCount
+    `crlf
+line`
+,}")).
+Eval vm_compute in ("<<<M106>>>" ++ check (runes_of_ascii "
+options { options1 =
+i64 matchKey// `tick` ""quote"" 'q'
+= true ;
+matchKey// c
+=
+    i16 ;
+    u8x =
+    ""{,}""; }
+")).
+Eval vm_compute in ("<<<M4119>>>" ++ check (runes_of_ascii "MetaData BodyLength {
+    int8 Foo,
+    string MetaDataX,
+    float zchar,
+    pack options1,
+    asx string_,
+}")).
+Eval vm_compute in ("<<<M1857>>>" ++ check (runes_of_ascii "packet o {
+    roots `it's`
+// trailing space 
+//x
+,  42
+    ]  A, // " ++ [27880; 37322]%N ++ runes_of_ascii "
+f64
+repeatCount
+    `crlf
+line`
+,}")).
+Eval vm_compute in ("<<<M3050>>>" ++ check (runes_of_ascii "packet A {
+    u16 len @lengthOf(body) `
+x`,
+    u32 crc @calculatedFrom(""CRC32"") `
+x`,
+    string body,
+}")).
+Eval vm_compute in ("<<<M2993>>>" ++ check (runes_of_ascii "packet A {
+  match k as n {
+    [""a"", 22, ""c c"", 4, ""e"", 66, ""g"", 8, ""i"", 10, ""k""] : B
+    2 : C
+  },
+}")).
+Eval vm_compute in ("<<<M3863>>>" ++ check (runes_of_ascii "
+
+  packet
+	leftPad {
+@leftPad
+    ( '0' )	u32 i64_	`100% of %d`,
+	repeat  // 50% %s
+i8 chars 
+,
+} ")).
+Eval vm_compute in ("<<<M2995>>>" ++ check (runes_of_ascii "packet A {
+  match k as n {
+    [1, 22, ""c c"", 4, 5, ""f"", 7, 8, ""i"", 10, 11] : B
+    2 : C
+  },
+}")).
+Eval vm_compute in ("<<<M2966>>>" ++ check (runes_of_ascii "packet A {
+  match k as n {
+    [""a"", 22, ""c c"", 4, ""e"", 66, ""g"", 8, ""i""] : B,
+    2 : C
+  },
+}")).
+Eval vm_compute in ("<<<M2958>>>" ++ check (runes_of_ascii "packet A {
+  match k as n {
+    [""a"", ""bb"", 007, ""d"", ""e"", 66, ""g"", ""h""] : B
+    2 : C
+  },
+}")).
+Eval vm_compute in ("<<<M2936>>>" ++ check (runes_of_ascii "packet A {
+  match k as n {
+    [""a"", ""bb"", ""c c"", ""d"", ""e"", ""f"", ""g""] : B,
+    2 : C
+  },
+}")).
+Eval vm_compute in ("<<<M1410>>>" ++ check (runes_of_ascii "root packet SimpleMessage {
+    uint16 MsgType `" ++ [28040; 24687; 31867; 22411]%N ++ runes_of_ascii "`,
+    string JsonBody `Json" ++ [23383; 31526; 20018; 28040; 24687; 20307]%N ++ runes_of_ascii "`,
+}")).
+Eval vm_compute in ("<<<M548>>>" ++ check (runes_of_ascii "packet
+    // @lengthOf(
+    int {
+    @calculatedFrom(
+""a\\"" ) char calculatedFrom ,	}
+
+")).
+Eval vm_compute in ("<<<M2945>>>" ++ check (runes_of_ascii "packet A {
+  match k as n {
+    [""a"", ""bb"", 007, ""d"", ""e"", 66, ""g""] : B
+    2 : C
+  },
+}")).
+Eval vm_compute in ("<<<M1746>>>" ++ check (runes_of_ascii "options{  lengthOf =//x
+i16;
+    BodyLength = = 0 ; pack
+= false;
+    A = char[ 3 ] }")).
+Eval vm_compute in ("<<<M1814>>>" ++ check (runes_of_ascii "options{  lengthOf =//x/
+i16;
+    BodyLength = 0 ; pack
+= false;
+    A = char[ 3 ] }")).
+Eval vm_compute in ("<<<M1797>>>" ++ check (runes_of_ascii "options{  lengthOf =//x
+i16;
+    BodyLength = 0 ; pack
+= false;
+    A = char[ ] 3 }")).
+Eval vm_compute in ("<<<M3874>>>" ++ check (runes_of_ascii "packet A {
+    match k as n {
+        // b
+        1 : B,
+        // f
+    },// h
+}")).
+Eval vm_compute in ("<<<M766>>>" ++ check (runes_of_ascii "packet
+    matchKey
+    { f32a
+    @calculatedFrom( // a // b
+""abc"" //x
+)
+,//
 }
-// c" ++ [160]%N)).
-Eval vm_compute in ("<<<M151>>>" ++ check (runes_of_ascii "packet  float{ }
 ")).
-Eval vm_compute in ("<<<M315>>>" ++ check (runes_of_ascii "MetaData As{ }")).
-Eval vm_compute in ("<<<M286>>>" ++ check (runes_of_ascii " //	t")).
-Eval vm_compute in ("<<<M14>>>" ++ check (runes_of_ascii "
+Eval vm_compute in ("<<<M3085>>>" ++ check (runes_of_ascii "packet A {
+    u32 crc @calculatedFrom(""\
+""),
+    @calculatedFrom(""\
+"") u8 y,
+}")).
+Eval vm_compute in ("<<<M3275>>>" ++ check (runes_of_ascii "MetaData Foo { zchar[ 0 ] matchKey , } options { lengthOf = i32 u = // c
+00 ; }")).
+Eval vm_compute in ("<<<M1442>>>" ++ check (runes_of_ascii "packet
+T
+{ match repeatCount as	
+{ [65535 ]	: As	,
+} ,}
+// trailing space 
 ")).
+Eval vm_compute in ("<<<M262>>>" ++ check (runes_of_ascii "root packet uint8x
+    {
+char[]pack  @calculatedFrom( ""`tick`"" ) ,
+    }")).
+Eval vm_compute in ("<<<M468>>>" ++ check (runes_of_ascii "// packet A { u8 x, }
+options// @lengthOf(
+{ chars = ""// no comment"" }
+")).
+Eval vm_compute in ("<<<M2109>>>" ++ check (runes_of_ascii "MetaData BodyLength
+{ int8 Foo
+, string
+    MetaDataX , float zchar ,")).
+Eval vm_compute in ("<<<M2887>>>" ++ check (runes_of_ascii "packet A {
+  match k as n {
+    [1, ""bb"", 007] : B
+    2 : C
+  },
+}")).
+Eval vm_compute in ("<<<M3573>>>" ++ check (runes_of_ascii "
+
+  packet
+
+MetaDataX
+    {
+	body
+, @tag(
+
+00  )	options1`a\`,}
+")).
+Eval vm_compute in ("<<<M2878>>>" ++ check (runes_of_ascii "packet A {
+  match k as n {
+    [1, ""bb""] : B
+    2 : C
+  },
+}")).
+Eval vm_compute in ("<<<M3299>>>" ++ check (runes_of_ascii "packet u8x { } MetaData // c
+crc { char[ 4294967296 ] Foo , }")).
+Eval vm_compute in ("<<<M4427>>>" ++ check (runes_of_ascii "packet 
+	    // 50% %s
+//	t
+  int
+{
+
+    } 	 // " ++ [128512]%N ++ runes_of_ascii " emoji")).
+Eval vm_compute in ("<<<M3534>>>" ++ check (runes_of_ascii "
+
+  packet
+Header
+
+    {
+repeat  int32 options1 , 
+}//x")).
+Eval vm_compute in ("<<<M2818>>>" ++ check (runes_of_ascii "[ false i8 [ int8 string = `tab	here` int64 repeat true")).
+Eval vm_compute in ("<<<M1861>>>" ++ check (runes_of_ascii "packet o {
+    roots `it's`
+// trailing space 
+//x
+,")).
+Eval vm_compute in ("<<<M2713>>>" ++ check (runes_of_ascii "u16 [ root ' ' options ( [ ] `" ++ [28040; 24687; 31867; 22411]%N ++ runes_of_ascii "` f64 i16 int32")).
+Eval vm_compute in ("<<<M792>>>" ++ check (runes_of_ascii "packet u8x// a // b
+{	} MetaData repeatCount{}")).
+Eval vm_compute in ("<<<M2353>>>" ++ check (runes_of_ascii "MetaData MetaData
+Foo {Header //
+pack ,	} 	 ")).
+Eval vm_compute in ("<<<M2366>>>" ++ check (runes_of_ascii "MetaData
+Foo {Header Header //
+pack ,	} 	 ")).
+Eval vm_compute in ("<<<M2382>>>" ++ check (runes_of_ascii "MetaData
+Foo {Header //
+pack ,	uint16 	 ")).
+Eval vm_compute in ("<<<M3229>>>" ++ check (runes_of_ascii "root packet u128 { chars // c
+`doc` , }")).
+Eval vm_compute in ("<<<M966>>>" ++ check (runes_of_ascii "// a // b
+MetaData x
+//x
+// a // b
+{}")).
+Eval vm_compute in ("<<<M2397>>>" ++ check (runes_of_ascii "MetaData
+F$oo {Header //
+pack ,	} 	 ")).
+Eval vm_compute in ("<<<M2701>>>" ++ check (runes_of_ascii "u64 ; ""// no comment"" options f64 =")).
+Eval vm_compute in ("<<<M3837>>>" ++ check (runes_of_ascii "MetaData i8i8 {
+    char[1] Foo,
+}")).
+Eval vm_compute in ("<<<M2749>>>" ++ check (runes_of_ascii "eR}" ++ [65533]%N ++ runes_of_ascii ">" ++ [65533]%N ++ runes_of_ascii "V" ++ [65533]%N ++ runes_of_ascii "Y" ++ [65533; 65533]%N ++ runes_of_ascii "g" ++ [65533]%N ++ runes_of_ascii "73T" ++ [65533]%N ++ runes_of_ascii "?D" ++ [65533; 65533]%N ++ runes_of_ascii "Q(/X" ++ [65533]%N ++ runes_of_ascii "!" ++ [29]%N ++ runes_of_ascii "B" ++ [65533]%N ++ runes_of_ascii "f" ++ [65533]%N)).
+Eval vm_compute in ("<<<M3054>>>" ++ check (runes_of_ascii "packet A {
+    u8 x `tab
+	x`,
+}")).
+Eval vm_compute in ("<<<M442>>>" ++ check (runes_of_ascii "options { int =zchar[ 1 ] }
+")).
+Eval vm_compute in ("<<<M2852>>>" ++ check (runes_of_ascii "+:7GE=qxYH$][}Bx[~rJt+""HuUpc")).
+Eval vm_compute in ("<<<M3042>>>" ++ check (runes_of_ascii "packet A {
+    u8 x `x
+`,
+}")).
+Eval vm_compute in ("<<<M1496>>>" ++ check (runes_of_ascii "packet
+T
+{ match repeatC")).
+Eval vm_compute in ("<<<M4355>>>" ++ check (runes_of_ascii "root packet metadata {
+}")).
+Eval vm_compute in ("<<<M4289>>>" ++ check (runes_of_ascii "
+// packet A { u8 x, }")).
+Eval vm_compute in ("<<<M1186>>>" ++ check (runes_of_ascii "MetaData
+    Z9_ { }")).
+Eval vm_compute in ("<<<M2828>>>" ++ check (runes_of_ascii "o7D*" ++ [65533; 65533]%N ++ runes_of_ascii ",t" ++ [65533; 65533; 65533]%N ++ runes_of_ascii "@" ++ [65533; 65533]%N ++ runes_of_ascii "8" ++ [65533; 11]%N ++ runes_of_ascii "G" ++ [23]%N)).
+Eval vm_compute in ("<<<M3113>>>" ++ check (runes_of_ascii "// c" ++ [5760]%N ++ runes_of_ascii "
+packet A {
+}")).
+Eval vm_compute in ("<<<M993>>>" ++ check (runes_of_ascii "
+options	{
+    }
+")).
+Eval vm_compute in ("<<<M3517>>>" ++ check (runes_of_ascii "
+
+  options{
+	}
+")).
+Eval vm_compute in ("<<<M2716>>>" ++ check (runes_of_ascii "f64 , @rightPad")).
+Eval vm_compute in ("<<<M242>>>" ++ check (runes_of_ascii "packet	a1 {}")).
+Eval vm_compute in ("<<<M2494>>>" ++ check (runes_of_ascii "@lengthOf(")).
+Eval vm_compute in ("<<<M2473>>>" ++ check (runes_of_ascii "metadata")).
+Eval vm_compute in ("<<<M2459>>>" ++ check (runes_of_ascii "falsey")).
+Eval vm_compute in ("<<<M2497>>>" ++ check (runes_of_ascii "@tag(")).
+Eval vm_compute in ("<<<M2452>>>" ++ check (runes_of_ascii "i8i8")).
+Eval vm_compute in ("<<<M2478>>>" ++ check (runes_of_ascii "'0'")).
+Eval vm_compute in ("<<<M2460>>>" ++ check (runes_of_ascii "as")).
+Eval vm_compute in ("<<<M2685>>>" ++ check (runes_of_ascii ",")).
